@@ -390,3 +390,1522 @@ Proof.
   rewrite evo_command_render. destruct (evo_command_struct kind n_rows n_cols a m) as [c|e]; [|discriminate].
   intro H. injection H as <-. exists c. split; reflexivity.
 Qed.
+
+(* ------------------------------------------------------------------ acceptance, spelled out *)
+
+Record accepted (n_rows n_cols : nat) (a : cmdargs) (m : Q)
+    (grid site : Z) (qs : list Q) (lc : string) (bs : list nat) (sl : list (option Z)) (sel : list bool)
+    : Prop := {
+  acc_len : length (flattenF (c_wells a)) = length (c_tips a);
+  acc_wells_asc : strictly_ascending_str (flattenF (c_wells a)) = true;
+  acc_grid : c_grid a = PInt grid /\ (1 <= grid <= 67)%Z;
+  acc_site : c_site a = PInt site /\ (1 <= site <= 128)%Z;
+  acc_vols : cmd_vols (c_volume a) m (length (flattenF (c_wells a))) = Ok qs;
+  acc_lc : c_liquid_class a = PStr lc /\ contains_char semi lc = false;
+  acc_tips : elems_bits (c_tips a) = Some bs;
+  acc_tips_asc : asc_nat bs = true;
+  acc_arm : c_arm a = 0%Z \/ c_arm a = 1%Z;
+  acc_slots : slots_struct eight (map tipval bs) qs = Some sl;
+  acc_sel : selection_array n_rows n_cols (flattenF (c_wells a)) = Some sel;
+  acc_cols : selected_columns n_rows n_cols (flattenF (c_wells a)) <= 1
+}.
+
+Definition the_cmd (kind : string) (n_rows n_cols : nat) (a : cmdargs)
+    (grid site : Z) (lc : string) (bs : list nat) (sl : list (option Z)) (sel : list bool) : cmd :=
+  {| cm_kind := kind; cm_mask := fold_right Z.add 0%Z (map tipval bs); cm_lc := lc;
+     cm_slots := sl; cm_grid := grid; cm_site := (site - 1)%Z;
+     cm_sel := evo_get_selection n_rows n_cols sel; cm_arm := c_arm a |}.
+
+Lemma evo_command_struct_iff kind n_rows n_cols a m c :
+  evo_command_struct kind n_rows n_cols a m = Ok c <->
+  exists grid site qs lc bs sl sel,
+    accepted n_rows n_cols a m grid site qs lc bs sl sel /\
+    c = the_cmd kind n_rows n_cols a grid site lc bs sl sel.
+Proof.
+  unfold evo_command_struct. cbv zeta. split.
+  - destruct (length (flattenF (c_wells a)) =? length (c_tips a))%nat eqn:E1; cbn [negb]; [|discriminate].
+    destruct (strictly_ascending_str (flattenF (c_wells a))) eqn:E2; cbn [negb]; [|discriminate].
+    destruct (check_range (c_grid a) 1 67) as [grid|] eqn:E3; [|discriminate].
+    destruct (check_range (c_site a) 1 128) as [site|] eqn:E4; [|discriminate].
+    destruct (cmd_vols (c_volume a) m (length (flattenF (c_wells a)))) as [qs|e] eqn:E5; [|discriminate].
+    destruct (text_ok false (c_liquid_class a)) as [lc|] eqn:E6; [|discriminate].
+    rewrite cmd_tip_values_elems_bits.
+    destruct (elems_bits (c_tips a)) as [bs|] eqn:E7; [|discriminate].
+    rewrite strictly_ascending_tipvals.
+    destruct (asc_nat bs) eqn:E8; cbn [negb]; [|discriminate].
+    destruct ((c_arm a =? 0) || (c_arm a =? 1))%Z eqn:E9; cbn [negb]; [|discriminate].
+    destruct (slots_struct eight (map tipval bs) qs) as [sl|] eqn:E10; [|discriminate].
+    destruct (selection_array n_rows n_cols (flattenF (c_wells a))) as [sel|] eqn:E11; [|discriminate].
+    destruct (2 <=? selected_columns n_rows n_cols (flattenF (c_wells a)))%nat eqn:E12; [discriminate|].
+    intro H. injection H as <-. exists grid, site, qs, lc, bs, sl, sel. split; [|reflexivity].
+    constructor; try assumption.
+    + apply Nat.eqb_eq. exact E1.
+    + apply check_range_spec. exact E3.
+    + apply check_range_spec. exact E4.
+    + apply text_ok_false_spec. exact E6.
+    + apply arm_ok_spec. exact E9.
+    + apply Nat.leb_gt in E12. lia.
+  - intros (grid & site & qs & lc & bs & sl & sel & A & ->).
+    destruct A as [A1 A2 A3 A4 A5 A6 A7 A8 A9 A10 A11 A12].
+    apply Nat.eqb_eq in A1. rewrite A1, A2. cbn [negb].
+    apply check_range_spec in A3. apply check_range_spec in A4.
+    rewrite A3, A4, A5.
+    apply text_ok_false_spec in A6. rewrite A6, cmd_tip_values_elems_bits, A7.
+    rewrite strictly_ascending_tipvals, A8. cbn [negb].
+    apply arm_ok_spec in A9. rewrite A9. cbn [negb].
+    rewrite A10, A11.
+    replace (2 <=? selected_columns n_rows n_cols (flattenF (c_wells a)))%nat with false
+      by (symmetry; apply Nat.leb_gt; lia).
+    reflexivity.
+Qed.
+
+(** an accepted command: all checks passed, and the text is the rendering of [the_cmd] *)
+Lemma evo_command_ok_iff kind n_rows n_cols a m text :
+  evo_command kind n_rows n_cols a m = Ok text <->
+  exists grid site qs lc bs sl sel,
+    accepted n_rows n_cols a m grid site qs lc bs sl sel /\
+    text = render_cmd (the_cmd kind n_rows n_cols a grid site lc bs sl sel).
+Proof.
+  rewrite evo_command_render. split.
+  - destruct (evo_command_struct kind n_rows n_cols a m) as [c|e] eqn:E; [|discriminate].
+    intro H. injection H as <-. apply evo_command_struct_iff in E.
+    destruct E as (grid & site & qs & lc & bs & sl & sel & A & ->).
+    exists grid, site, qs, lc, bs, sl, sel. split; [exact A|reflexivity].
+  - intros (grid & site & qs & lc & bs & sl & sel & A & ->).
+    assert (E : evo_command_struct kind n_rows n_cols a m =
+                Ok (the_cmd kind n_rows n_cols a grid site lc bs sl sel)).
+    { apply evo_command_struct_iff. exists grid, site, qs, lc, bs, sl, sel. split; [exact A|reflexivity]. }
+    rewrite E. reflexivity.
+Qed.
+
+(** acceptance does not depend on the command kind *)
+Lemma evo_command_kind_indep k1 k2 n_rows n_cols a m :
+  (exists t, evo_command k1 n_rows n_cols a m = Ok t) <-> (exists t, evo_command k2 n_rows n_cols a m = Ok t).
+Proof.
+  split; intros [t H]; apply evo_command_ok_iff in H;
+    destruct H as (grid & site & qs & lc & bs & sl & sel & A & _);
+    eexists; apply evo_command_ok_iff; exists grid, site, qs, lc, bs, sl, sel; (split; [exact A|reflexivity]).
+Qed.
+
+(* ------------------------------------------------------------------ rejection *)
+
+(** the errors: everything is a plain rejection except a volume above the worklist's max_volume *)
+Lemma cmd_vols_err v m n e : cmd_vols v m n = Err e ->
+  e = EReject \/
+  (e = EInvalidOp /\ exists q, (0 <= q)%Q /\ (m < q)%Q /\
+     (v = CVScalar (PV (XQ q)) \/ exists l, v = CVList l /\ In (PV (XQ q)) l)).
+Proof.
+  unfold cmd_vols. destruct v as [x|l|].
+  - destruct (check_volume x (Some m)) as [q|e0] eqn:E; [discriminate|]. intro H. injection H as <-.
+    apply check_volume_err in E. destruct E as [[-> _]|[-> (q & -> & H0 & Hm)]]; [left; reflexivity|].
+    right. split; [reflexivity|]. exists q. repeat split; try assumption. left. reflexivity.
+  - destruct (check_volumes l m) as [qs|e0] eqn:E.
+    + destruct (length qs =? n)%nat; [discriminate|]. intro H. injection H as <-. left. reflexivity.
+    + intro H. injection H as <-. apply check_volumes_err in E.
+      destruct E as (pre & x & post & -> & Hx & _). apply check_volume_err in Hx.
+      destruct Hx as [[-> _]|[-> (q & -> & H0 & Hm)]]; [left; reflexivity|].
+      right. split; [reflexivity|]. exists q. repeat split; try assumption. right.
+      eexists. split; [reflexivity|]. apply in_or_app. right. left. reflexivity.
+  - intro H. injection H as <-. left. reflexivity.
+Qed.
+
+Lemma evo_command_struct_errors kind n_rows n_cols a m e :
+  evo_command_struct kind n_rows n_cols a m = Err e ->
+  e = EReject \/ cmd_vols (c_volume a) m (length (flattenF (c_wells a))) = Err e.
+Proof.
+  unfold evo_command_struct. cbv zeta.
+  destruct (negb (length (flattenF (c_wells a)) =? length (c_tips a))%nat);
+    [intro H; injection H as <-; left; reflexivity|].
+  destruct (negb (strictly_ascending_str (flattenF (c_wells a))));
+    [intro H; injection H as <-; left; reflexivity|].
+  destruct (check_range (c_grid a) 1 67) as [grid|]; [|intro H; injection H as <-; left; reflexivity].
+  destruct (check_range (c_site a) 1 128) as [site|]; [|intro H; injection H as <-; left; reflexivity].
+  destruct (cmd_vols (c_volume a) m (length (flattenF (c_wells a)))) as [qs|e0];
+    [|intro H; injection H as <-; right; reflexivity].
+  destruct (text_ok false (c_liquid_class a)) as [lc|]; [|intro H; injection H as <-; left; reflexivity].
+  destruct (cmd_tip_values (c_tips a)) as [tvs|]; [|intro H; injection H as <-; left; reflexivity].
+  destruct (negb (strictly_ascending_Z tvs)); [intro H; injection H as <-; left; reflexivity|].
+  destruct (negb ((c_arm a =? 0) || (c_arm a =? 1))%Z); [intro H; injection H as <-; left; reflexivity|].
+  destruct (slots_struct eight tvs qs) as [sl|]; [|intro H; injection H as <-; left; reflexivity].
+  destruct (selection_array n_rows n_cols (flattenF (c_wells a))) as [sel|];
+    [|intro H; injection H as <-; left; reflexivity].
+  destruct (2 <=? selected_columns n_rows n_cols (flattenF (c_wells a)))%nat;
+    [intro H; injection H as <-; left; reflexivity|discriminate].
+Qed.
+
+Lemma evo_command_errors kind n_rows n_cols a m e :
+  evo_command kind n_rows n_cols a m = Err e ->
+  e = EReject \/
+  (e = EInvalidOp /\ exists q, (0 <= q)%Q /\ (m < q)%Q /\
+     (c_volume a = CVScalar (PV (XQ q)) \/ exists l, c_volume a = CVList l /\ In (PV (XQ q)) l)).
+Proof.
+  rewrite evo_command_render.
+  destruct (evo_command_struct kind n_rows n_cols a m) as [c|e0] eqn:E; [discriminate|].
+  intro H. injection H as <-. apply evo_command_struct_errors in E.
+  destruct E as [->|E]; [left; reflexivity|]. exact (cmd_vols_err _ _ _ _ E).
+Qed.
+
+(** generic: whenever a necessary condition of acceptance fails, the call is an error *)
+Lemma evo_command_not_accepted kind n_rows n_cols a m :
+  (forall grid site qs lc bs sl sel, ~ accepted n_rows n_cols a m grid site qs lc bs sl sel) ->
+  exists e, evo_command kind n_rows n_cols a m = Err e.
+Proof.
+  intro H. destruct (evo_command kind n_rows n_cols a m) as [t|e] eqn:E; [|exists e; reflexivity].
+  apply evo_command_ok_iff in E. destruct E as (grid & site & qs & lc & bs & sl & sel & A & _).
+  exfalso. exact (H _ _ _ _ _ _ _ A).
+Qed.
+
+Ltac reject_by field A X :=
+  apply evo_command_not_accepted;
+  intros ? ? ? ? ? ? ? A; pose proof (field _ _ _ _ _ _ _ _ _ _ _ A) as X.
+
+Lemma reject_length kind n_rows n_cols a m :
+  length (flattenF (c_wells a)) <> length (c_tips a) ->
+  evo_command kind n_rows n_cols a m = Err EReject.
+Proof.
+  intro H. unfold evo_command. cbv zeta. apply Nat.eqb_neq in H. rewrite H. reflexivity.
+Qed.
+
+Lemma reject_wells_order kind n_rows n_cols a m :
+  strictly_ascending_str (flattenF (c_wells a)) = false ->
+  evo_command kind n_rows n_cols a m = Err EReject.
+Proof.
+  intro H. unfold evo_command. cbv zeta. rewrite H.
+  destruct (negb (length (flattenF (c_wells a)) =? length (c_tips a))%nat); reflexivity.
+Qed.
+
+(** repeated wells, or a pair out of order anywhere in the list, make the list not strictly ascending *)
+Lemma strictly_ascending_str_pair l1 x y l2 :
+  str_leb y x = true -> strictly_ascending_str (l1 ++ x :: y :: l2) = false.
+Proof.
+  intro H. induction l1 as [|z r IH].
+  - cbn [app]. change (strictly_ascending_str (x :: y :: l2))
+      with (negb (str_leb y x) && strictly_ascending_str (y :: l2)). rewrite H. reflexivity.
+  - destruct r as [|z' r'].
+    + cbn [app] in *. change (strictly_ascending_str (z :: x :: y :: l2))
+        with (negb (str_leb x z) && strictly_ascending_str (x :: y :: l2)).
+      rewrite IH. apply andb_false_r.
+    + change (strictly_ascending_str ((z :: z' :: r') ++ x :: y :: l2))
+        with (negb (str_leb z' z) && strictly_ascending_str ((z' :: r') ++ x :: y :: l2)).
+      rewrite IH. apply andb_false_r.
+Qed.
+
+Lemma strictly_ascending_str_cons a l :
+  strictly_ascending_str (a :: l) = true <->
+  (forall x, In x l -> str_leb x a = false) /\ strictly_ascending_str l = true.
+Proof.
+  revert a. induction l as [|b r IH]; intro a.
+  - cbn [strictly_ascending_str In]. split; [intros _; split; [intros x []|reflexivity]|reflexivity].
+  - change (strictly_ascending_str (a :: b :: r))
+      with (negb (str_leb b a) && strictly_ascending_str (b :: r)).
+    rewrite andb_true_iff, negb_true_iff. split.
+    + intros [H1 H2]. split; [|exact H2]. intros x [<-|Hx]; [exact H1|].
+      apply IH in H2. destruct H2 as [H2 _]. specialize (H2 x Hx).
+      destruct (str_leb x a) eqn:E; [|reflexivity].
+      apply str_leb_false in H1. destruct H1 as [H1 _].
+      rewrite (str_leb_trans x a b E H1) in H2. discriminate.
+    + intros [H1 H2]. split; [apply H1; left; reflexivity|exact H2].
+Qed.
+
+Lemma strictly_ascending_str_NoDup l : strictly_ascending_str l = true -> NoDup l.
+Proof.
+  induction l as [|a r IH]; intro H; [constructor|].
+  apply strictly_ascending_str_cons in H. destruct H as [H1 H2]. constructor; [|exact (IH H2)].
+  intro Hin. specialize (H1 a Hin). rewrite str_leb_refl in H1. discriminate.
+Qed.
+
+Lemma reject_repeated_well kind n_rows n_cols a m :
+  ~ NoDup (flattenF (c_wells a)) -> evo_command kind n_rows n_cols a m = Err EReject.
+Proof.
+  intro H. apply reject_wells_order.
+  destruct (strictly_ascending_str (flattenF (c_wells a))) eqn:E; [|reflexivity].
+  exfalso. apply H. apply strictly_ascending_str_NoDup. exact E.
+Qed.
+
+Lemma reject_grid kind n_rows n_cols a m :
+  c_grid a = PNotInt \/ (exists z, c_grid a = PInt z /\ (z < 1 \/ 67 < z)%Z) ->
+  evo_command kind n_rows n_cols a m = Err EReject.
+Proof.
+  intro H. apply check_range_none in H. unfold evo_command. cbv zeta. rewrite H.
+  destruct (negb (length (flattenF (c_wells a)) =? length (c_tips a))%nat); [reflexivity|].
+  destruct (negb (strictly_ascending_str (flattenF (c_wells a)))); reflexivity.
+Qed.
+
+Lemma reject_site kind n_rows n_cols a m :
+  c_site a = PNotInt \/ (exists z, c_site a = PInt z /\ (z < 1 \/ 128 < z)%Z) ->
+  evo_command kind n_rows n_cols a m = Err EReject.
+Proof.
+  intro H. apply check_range_none in H. unfold evo_command. cbv zeta. rewrite H.
+  destruct (negb (length (flattenF (c_wells a)) =? length (c_tips a))%nat); [reflexivity|].
+  destruct (negb (strictly_ascending_str (flattenF (c_wells a)))); [reflexivity|].
+  destruct (check_range (c_grid a) 1 67); reflexivity.
+Qed.
+
+(** a refused volume: the call fails with the volume's error unless an earlier check already
+    rejected it *)
+Lemma reject_volume kind n_rows n_cols a m e :
+  cmd_vols (c_volume a) m (length (flattenF (c_wells a))) = Err e ->
+  evo_command kind n_rows n_cols a m = Err e \/ evo_command kind n_rows n_cols a m = Err EReject.
+Proof.
+  intro H. unfold evo_command. cbv zeta.
+  destruct (negb (length (flattenF (c_wells a)) =? length (c_tips a))%nat); [right; reflexivity|].
+  destruct (negb (strictly_ascending_str (flattenF (c_wells a)))); [right; reflexivity|].
+  destruct (check_range (c_grid a) 1 67); [|right; reflexivity].
+  destruct (check_range (c_site a) 1 128); [|right; reflexivity].
+  fold (cmd_vols (c_volume a) m (length (flattenF (c_wells a)))). rewrite H. left. reflexivity.
+Qed.
+
+(** ... and exactly that error when wells, tips, grid and site are fine *)
+Lemma reject_volume_exact kind n_rows n_cols a m e g s :
+  length (flattenF (c_wells a)) = length (c_tips a) ->
+  strictly_ascending_str (flattenF (c_wells a)) = true ->
+  c_grid a = PInt g -> (1 <= g <= 67)%Z -> c_site a = PInt s -> (1 <= s <= 128)%Z ->
+  cmd_vols (c_volume a) m (length (flattenF (c_wells a))) = Err e ->
+  evo_command kind n_rows n_cols a m = Err e.
+Proof.
+  intros H1 H2 Hg Hg' Hs Hs' H. unfold evo_command. cbv zeta.
+  apply Nat.eqb_eq in H1. rewrite H1, H2. cbn [negb].
+  rewrite (proj2 (check_range_spec _ 1 67 g) (conj Hg Hg')).
+  rewrite (proj2 (check_range_spec _ 1 128 s) (conj Hs Hs')).
+  fold (cmd_vols (c_volume a) m (length (flattenF (c_wells a)))). rewrite H. reflexivity.
+Qed.
+
+Lemma cmd_vols_scalar_bad x m n :
+  x = PVBad \/ x = PV XNaN \/ x = PV XPInf \/ x = PV XNInf \/ (exists q, x = PV (XQ q) /\ (q < 0)%Q) ->
+  cmd_vols (CVScalar x) m n = Err EReject.
+Proof. intro H. unfold cmd_vols. rewrite (check_volume_bad _ _ H). reflexivity. Qed.
+
+Lemma cmd_vols_scalar_over q m n : (0 <= q)%Q -> (q <= max_tecan_volume)%Q -> (m < q)%Q ->
+  cmd_vols (CVScalar (PV (XQ q))) m n = Err EInvalidOp.
+Proof. intros H0 Ht Hm. unfold cmd_vols. rewrite check_volume_over by assumption. reflexivity. Qed.
+
+Lemma cmd_vols_list_bad l m n x :
+  In x l -> (exists e, check_volume x (Some m) = Err e) -> exists e, cmd_vols (CVList l) m n = Err e.
+Proof.
+  intros Hin He. destruct (check_volumes_In_err l m x Hin He) as [e E].
+  exists e. unfold cmd_vols. rewrite E. reflexivity.
+Qed.
+
+Lemma cmd_vols_list_length l m n : length l <> n -> exists e, cmd_vols (CVList l) m n = Err e.
+Proof.
+  intro H. unfold cmd_vols. destruct (check_volumes l m) as [qs|e] eqn:E; [|exists e; reflexivity].
+  destruct (check_volumes_ok _ _ _ E) as [-> _]. rewrite map_length in H.
+  apply Nat.eqb_neq in H. rewrite H. exists EReject. reflexivity.
+Qed.
+
+Lemma cmd_vols_other m n : cmd_vols CVOther m n = Err EReject.
+Proof. reflexivity. Qed.
+
+Lemma reject_volume_any kind n_rows n_cols a m :
+  (exists e, cmd_vols (c_volume a) m (length (flattenF (c_wells a))) = Err e) ->
+  exists e, evo_command kind n_rows n_cols a m = Err e.
+Proof.
+  intros [e H]. destruct (reject_volume kind n_rows n_cols a m e H) as [E|E]; eexists; exact E.
+Qed.
+
+Lemma reject_liquid_class kind n_rows n_cols a m :
+  c_liquid_class a = PNotStr \/ (exists s, c_liquid_class a = PStr s /\ contains_char semi s = true) ->
+  exists e, evo_command kind n_rows n_cols a m = Err e.
+Proof.
+  intro H. reject_by acc_lc A X. destruct X as [E1 E2].
+  destruct H as [H|[s [H Hs]]]; rewrite H in E1; [discriminate|]. injection E1 as ->. congruence.
+Qed.
+
+Lemma reject_tips_invalid kind n_rows n_cols a m :
+  (exists x, In x (c_tips a) /\ elem_bit x = None) ->
+  exists e, evo_command kind n_rows n_cols a m = Err e.
+Proof.
+  intro H. reject_by acc_tips A X. apply elems_bits_none in H. congruence.
+Qed.
+
+Lemma reject_tips_order kind n_rows n_cols a m bs :
+  elems_bits (c_tips a) = Some bs -> asc_nat bs = false ->
+  exists e, evo_command kind n_rows n_cols a m = Err e.
+Proof.
+  intros Hb H. reject_by acc_tips A X. pose proof (acc_tips_asc _ _ _ _ _ _ _ _ _ _ _ A). congruence.
+Qed.
+
+Lemma reject_arm kind n_rows n_cols a m :
+  c_arm a <> 0%Z -> c_arm a <> 1%Z -> exists e, evo_command kind n_rows n_cols a m = Err e.
+Proof. intros H0 H1. reject_by acc_arm A X. tauto. Qed.
+
+Lemma reject_columns kind n_rows n_cols a m :
+  2 <= selected_columns n_rows n_cols (flattenF (c_wells a)) ->
+  exists e, evo_command kind n_rows n_cols a m = Err e.
+Proof. intro H. reject_by acc_cols A X. lia. Qed.
+
+Lemma selection_array_some rows cols wells sel : selection_array rows cols wells = Some sel ->
+  exists rcs, map (make_well_index rows cols) wells = map Some rcs /\
+    sel = flat_map (fun c => map (fun r => existsb (fun rc => (fst rc =? r)%nat && (snd rc =? c)%nat) rcs)
+                                 (seq 0 (Nat.min 26 rows))) (seq 0 cols).
+Proof.
+  unfold selection_array.
+  match goal with |- context [fold_right ?f (Some []) wells] => set (F := fold_right f (Some []) wells) end.
+  assert (G : forall idxs, F = Some idxs -> map (make_well_index rows cols) wells = map Some idxs).
+  { subst F. induction wells as [|w r IH]; intros idxs H; cbn [fold_right] in H.
+    - injection H as <-. reflexivity.
+    - destruct (make_well_index rows cols w) as [rc|] eqn:Ew; [|discriminate].
+      match type of H with match ?X with _ => _ end = _ => destruct X as [l|] eqn:El end; [|discriminate].
+      injection H as <-. cbn [map]. rewrite Ew, (IH l eq_refl). reflexivity. }
+  destruct F as [idxs|]; [|discriminate]. intro H. injection H as <-.
+  exists idxs. split; [apply G; reflexivity|reflexivity].
+Qed.
+
+Lemma selection_array_none rows cols wells :
+  (exists w, In w wells /\ make_well_index rows cols w = None) -> selection_array rows cols wells = None.
+Proof.
+  intros [w [Hin Hw]]. destruct (selection_array rows cols wells) as [sel|] eqn:E; [|reflexivity].
+  apply selection_array_some in E. destruct E as (rcs & Hm & _). exfalso.
+  apply (in_map (make_well_index rows cols)) in Hin. rewrite Hm, Hw in Hin.
+  apply in_map_iff in Hin. destruct Hin as [x [Hx _]]. discriminate.
+Qed.
+
+Lemma reject_unknown_well kind n_rows n_cols a m :
+  (exists w, In w (flattenF (c_wells a)) /\ make_well_index n_rows n_cols w = None) ->
+  exists e, evo_command kind n_rows n_cols a m = Err e.
+Proof.
+  intro H. reject_by acc_sel A X. rewrite (selection_array_none _ _ _ H) in X. discriminate.
+Qed.
+
+(* ------------------------------------------------------------------ the wash command *)
+
+(** a wash volume: an int 0..100 printed as is, or a float 0..100 printed rounded to one decimal *)
+Inductive wash_vol_text : pyfi -> string -> Prop :=
+| WVInt z : (0 <= z <= 100)%Z -> wash_vol_text (FI_int z) (decZ z)
+| WVFloat q : (0 <= q)%Q -> (q <= 100)%Q -> wash_vol_text (FI_float (XQ q)) (pyrepr_round1 q).
+
+Lemma wash_vol_spec v s : wash_vol v = Some s <-> wash_vol_text v s.
+Proof.
+  split.
+  - unfold wash_vol. destruct v as [z|[q| | |]|]; try discriminate.
+    + destruct ((0 <=? z) && (z <=? 100))%Z eqn:E; [|discriminate]. intro H. injection H as <-.
+      apply andb_true_iff in E. destruct E as [E1 E2]. apply Z.leb_le in E1. apply Z.leb_le in E2.
+      constructor. lia.
+    + destruct (Qle_bool 0 q && Qle_bool q 100) eqn:E; [|discriminate]. intro H. injection H as <-.
+      apply andb_true_iff in E. destruct E as [E1 E2].
+      apply Qle_bool_iff in E1. apply Qle_bool_iff in E2. constructor; assumption.
+  - intro H. destruct H as [z Hz|q H0 H1]; unfold wash_vol.
+    + replace ((0 <=? z) && (z <=? 100))%Z with true; [reflexivity|].
+      symmetry. apply andb_true_iff. split; apply Z.leb_le; lia.
+    + apply Qle_bool_iff in H0. apply Qle_bool_iff in H1. rewrite H0, H1. reflexivity.
+Qed.
+
+Definition wash_text (mask wg wsite cg csite : Z) (wv : string) (wd : Z) (cv : string)
+    (cd ag ags rs fw lv arm : Z) : string :=
+  "B;Wash(" ++ decZ mask ++ "," ++ decZ wg ++ "," ++ decZ (wsite - 1)
+  ++ "," ++ decZ cg ++ "," ++ decZ (csite - 1) ++ ",""" ++ wv ++ """," ++ decZ wd
+  ++ ",""" ++ cv ++ """," ++ decZ cd ++ "," ++ decZ ag ++ "," ++ decZ ags ++ ","
+  ++ decZ rs ++ "," ++ decZ fw ++ "," ++ decZ lv ++ ",1000," ++ decZ arm ++ ");".
+
+Definition int_in (p : pyint) (lo hi z : Z) : Prop := p = PInt z /\ (lo <= z <= hi)%Z.
+
+Record wash_ok (a : washargs) (bs : list nat) (wg wsite cg csite : Z) (wv : string) (wd : Z)
+    (cv : string) (cd ag ags rs fw lv : Z) : Prop := {
+  wo_tips : elems_bits (wa_tips a) = Some bs;
+  wo_wg : int_in (wa_waste_grid a) 1 67 wg;
+  wo_ws : int_in (wa_waste_site a) 1 128 wsite;
+  wo_cg : int_in (wa_cleaner_grid a) 1 67 cg;
+  wo_cs : int_in (wa_cleaner_site a) 1 128 csite;
+  wo_arm : wa_arm a = 0%Z \/ wa_arm a = 1%Z;
+  wo_wv : wash_vol_text (wa_waste_vol a) wv;
+  wo_wd : int_in (wa_waste_delay a) 0 1000 wd;
+  wo_cv : wash_vol_text (wa_cleaner_vol a) cv;
+  wo_cd : int_in (wa_cleaner_delay a) 0 1000 cd;
+  wo_ag : int_in (wa_airgap a) 0 100 ag;
+  wo_ags : int_in (wa_airgap_speed a) 1 1000 ags;
+  wo_rs : int_in (wa_retract_speed a) 1 100 rs;
+  wo_fw : int_in (wa_fastwash a) 0 1 fw;
+  wo_lv : int_in (wa_low_volume a) 0 1 lv
+}.
+
+Lemma evo_wash_cmd_iff a text :
+  evo_wash_cmd a = Ok text <->
+  exists bs wg wsite cg csite wv wd cv cd ag ags rs fw lv,
+    wash_ok a bs wg wsite cg csite wv wd cv cd ag ags rs fw lv /\
+    text = wash_text (Z.of_N (mask_or bs)) wg wsite cg csite wv wd cv cd ag ags rs fw lv (wa_arm a).
+Proof.
+  unfold evo_wash_cmd. rewrite wash_tip_values_elems_bits. split.
+  - destruct (elems_bits (wa_tips a)) as [bs|] eqn:E0; [|discriminate].
+    destruct (check_range (wa_waste_grid a) 1 67) as [wg|] eqn:E1; [|discriminate].
+    destruct (check_range (wa_waste_site a) 1 128) as [wsite|] eqn:E2; [|discriminate].
+    destruct (check_range (wa_cleaner_grid a) 1 67) as [cg|] eqn:E3; [|discriminate].
+    destruct (check_range (wa_cleaner_site a) 1 128) as [csite|] eqn:E4; [|discriminate].
+    destruct ((wa_arm a =? 0) || (wa_arm a =? 1))%Z eqn:E5; cbn [negb]; [|discriminate].
+    destruct (wash_vol (wa_waste_vol a)) as [wv|] eqn:E6; [|discriminate].
+    destruct (check_range (wa_waste_delay a) 0 1000) as [wd|] eqn:E7; [|discriminate].
+    destruct (wash_vol (wa_cleaner_vol a)) as [cv|] eqn:E8; [|discriminate].
+    destruct (check_range (wa_cleaner_delay a) 0 1000) as [cd|] eqn:E9; [|discriminate].
+    destruct (check_range (wa_airgap a) 0 100) as [ag|] eqn:E10; [|discriminate].
+    destruct (check_range (wa_airgap_speed a) 1 1000) as [ags|] eqn:E11; [|discriminate].
+    destruct (check_range (wa_retract_speed a) 1 100) as [rs|] eqn:E12; [|discriminate].
+    destruct (check_range (wa_fastwash a) 0 1) as [fw|] eqn:E13; [|discriminate].
+    destruct (check_range (wa_low_volume a) 0 1) as [lv|] eqn:E14; [|discriminate].
+    intro H. injection H as <-.
+    exists bs, wg, wsite, cg, csite, wv, wd, cv, cd, ag, ags, rs, fw, lv. split.
+    + constructor; try (apply check_range_spec; assumption); try (apply wash_vol_spec; assumption).
+      * exact E0.
+      * apply arm_ok_spec. exact E5.
+    + rewrite sum_dedup_tipvals_or. reflexivity.
+  - intros (bs & wg & wsite & cg & csite & wv & wd & cv & cd & ag & ags & rs & fw & lv & W & ->).
+    destruct W as [W0 W1 W2 W3 W4 W5 W6 W7 W8 W9 W10 W11 W12 W13 W14].
+    apply check_range_spec in W1, W2, W3, W4, W7, W9, W10, W11, W12, W13, W14.
+    apply wash_vol_spec in W6, W8. apply arm_ok_spec in W5.
+    rewrite W0, W1, W2, W3, W4, W5, W6, W7, W8, W9, W10, W11, W12, W13, W14. cbn [negb].
+    rewrite sum_dedup_tipvals_or. reflexivity.
+Qed.
+
+(** Tip.Any (or anything that is not a tip 1..8) among the wash tips is refused *)
+Lemma evo_wash_cmd_bad_tip a :
+  (exists x, In x (wa_tips a) /\ elem_bit x = None) -> evo_wash_cmd a = Err EReject.
+Proof.
+  intro H. apply elems_bits_none in H. unfold evo_wash_cmd.
+  rewrite wash_tip_values_elems_bits, H. reflexivity.
+Qed.
+
+Lemma evo_wash_cmd_errors a e : evo_wash_cmd a = Err e -> e = EReject.
+Proof.
+  unfold evo_wash_cmd.
+  repeat match goal with
+         | |- context [match ?X with _ => _ end] => destruct X
+         | |- context [if ?X then _ else _] => destruct X
+         end; intro H; try discriminate; injection H as <-; reflexivity.
+Qed.
+
+(** the worklist wrapper: exactly one record, or nothing at all *)
+Lemma evo_wash_accept s a s' :
+  evo_wash s a = (s', None) <->
+  exists text, evo_wash_cmd a = Ok text /\ s' = set_wl s (emit (st_wl s) [RCmd text]).
+Proof.
+  unfold evo_wash. destruct (evo_wash_cmd a) as [text|e].
+  - split.
+    + intro H. injection H as <-. exists text. split; reflexivity.
+    + intros [t [H ->]]. injection H as <-. reflexivity.
+  - split; [discriminate|]. intros [t [H _]]. discriminate H.
+Qed.
+
+Lemma evo_wash_reject s a s' e :
+  evo_wash s a = (s', Some e) <-> evo_wash_cmd a = Err e /\ s' = s.
+Proof.
+  unfold evo_wash. destruct (evo_wash_cmd a) as [text|e0].
+  - split; [discriminate|]. intros [H _]. discriminate H.
+  - split.
+    + intro H. injection H as <- <-. split; reflexivity.
+    + intros [H ->]. injection H as <-. reflexivity.
+Qed.
+
+(* ------------------------------------------------------------------ the slots of an accepted command *)
+
+Lemma asc_nat_head s bs : asc_nat bs = true -> (forall b, In b bs -> s <= b) -> In s bs ->
+  exists bs', bs = s :: bs'.
+Proof.
+  intros Ha Hb Hin. destruct bs as [|b bs']; [destruct Hin|].
+  apply asc_nat_cons in Ha. destruct Ha as [Ha _]. destruct Hin as [->|Hin]; [exists bs'; reflexivity|].
+  specialize (Ha s Hin). specialize (Hb b (or_introl eq_refl)). lia.
+Qed.
+
+Lemma existsb_eqb_false i l : existsb (Nat.eqb i) l = false <-> ~ In i l.
+Proof.
+  rewrite <- existsb_eqb_In. destruct (existsb (Nat.eqb i) l); split; congruence.
+Qed.
+
+(** slots for the tip values 2^s .. 2^(s+n-1): the k-th given tip gets the k-th volume, the others 0 *)
+Lemma slots_struct_spec given : forall n s bs qs,
+  (forall i, s <= i -> existsb (Z.eqb (tipval i)) given = existsb (Nat.eqb i) bs) ->
+  asc_nat bs = true -> (forall b, In b bs -> s <= b < s + n) -> length qs = length bs ->
+  exists sl, slots_struct (map tipval (seq s n)) given qs = Some sl /\ length sl = n /\
+    map (fun b => nth_error sl (b - s)) bs = map (fun q => Some (Some (round2c q))) qs /\
+    (forall i, s <= i < s + n -> ~ In i bs -> nth_error sl (i - s) = Some None).
+Proof.
+  induction n as [|n IH]; intros s bs qs Hg Ha Hb Hl.
+  - destruct bs as [|b bs']; [|specialize (Hb b (or_introl eq_refl)); lia].
+    destruct qs as [|q qs']; [|discriminate Hl].
+    exists []. repeat split; intros; lia.
+  - cbn [seq map slots_struct]. rewrite (Hg s (le_n s)).
+    destruct (existsb (Nat.eqb s) bs) eqn:Es.
+    + apply existsb_eqb_In in Es.
+      destruct (asc_nat_head s bs Ha (fun b Hin => proj1 (Hb b Hin)) Es) as [bs' ->].
+      destruct qs as [|q qs']; [discriminate Hl|]. cbn [length] in Hl.
+      apply asc_nat_cons in Ha. destruct Ha as [Ha1 Ha2].
+      destruct (IH (S s) bs' qs') as (sl & E & Hlen & Hmap & Hnone).
+      * intros i Hi. rewrite (Hg i) by lia. cbn [existsb].
+        replace (i =? s)%nat with false by (symmetry; apply Nat.eqb_neq; lia). reflexivity.
+      * exact Ha2.
+      * intros b Hin. specialize (Ha1 b Hin). specialize (Hb b (or_intror Hin)). lia.
+      * lia.
+      * rewrite E. exists (Some (round2c q) :: sl). split; [reflexivity|]. split; [cbn [length]; lia|]. split.
+        -- cbn [map]. rewrite Nat.sub_diag. cbn [nth_error]. f_equal. rewrite <- Hmap.
+           apply map_ext_in. intros b Hin. specialize (Ha1 b Hin).
+           replace (b - s) with (S (b - S s)) by lia. reflexivity.
+        -- intros i Hi Hni. assert (His : i <> s) by (intro C; apply Hni; left; symmetry; exact C).
+           replace (i - s) with (S (i - S s)) by lia. cbn [nth_error]. apply Hnone; [lia|].
+           intro C. apply Hni. right. exact C.
+    + apply existsb_eqb_false in Es.
+      assert (Hb' : forall b, In b bs -> S s <= b < S s + n).
+      { intros b Hin. specialize (Hb b Hin). assert (Hbs : b <> s) by (intro C; subst b; contradiction). lia. }
+      destruct (IH (S s) bs qs) as (sl & E & Hlen & Hmap & Hnone).
+      * intros i Hi. apply Hg. lia.
+      * exact Ha.
+      * exact Hb'.
+      * exact Hl.
+      * rewrite E. exists (None :: sl). split; [reflexivity|]. split; [cbn [length]; lia|]. split.
+        -- rewrite <- Hmap. apply map_ext_in. intros b Hin. specialize (Hb' b Hin).
+           replace (b - s) with (S (b - S s)) by lia. reflexivity.
+        -- intros i Hi Hni. destruct (Nat.eq_dec i s) as [->|Hne].
+           ++ rewrite Nat.sub_diag. reflexivity.
+           ++ replace (i - s) with (S (i - S s)) by lia. cbn [nth_error]. apply Hnone; [lia|exact Hni].
+Qed.
+
+Lemma elems_bits_lt8 l bs : elems_bits l = Some bs -> forall b, In b bs -> b < 8.
+Proof.
+  intros H b Hb. apply (elems_bits_In l bs H) in Hb. destruct Hb as [e [_ He]].
+  exact (elem_bit_lt8 e b He).
+Qed.
+
+Lemma elems_bits_length l : forall bs, elems_bits l = Some bs -> length bs = length l.
+Proof.
+  induction l as [|e r IH]; intros bs H; cbn [elems_bits] in H.
+  - injection H as <-. reflexivity.
+  - destruct (elem_bit e) as [b|]; [|discriminate]. destruct (elems_bits r) as [bs'|]; [|discriminate].
+    injection H as <-. cbn [length]. rewrite (IH bs' eq_refl). reflexivity.
+Qed.
+
+(** the eight slots of a command with ascending tips [bs] (bit indices) and volumes [qs] *)
+Lemma slots_eight bs qs sl :
+  asc_nat bs = true -> (forall b, In b bs -> b < 8) -> length qs = length bs ->
+  slots_struct eight (map tipval bs) qs = Some sl ->
+  length sl = 8 /\
+  map (fun b => nth_error sl b) bs = map (fun q => Some (Some (round2c q))) qs /\
+  (forall i, i < 8 -> ~ In i bs -> nth_error sl i = Some None).
+Proof.
+  intros Ha Hb Hl Hs. rewrite eight_tipvals in Hs.
+  destruct (slots_struct_spec (map tipval bs) 8 0 bs qs) as (sl' & E & Hlen & Hmap & Hnone).
+  - intros i _. apply existsb_tipval.
+  - exact Ha.
+  - intros b Hin. specialize (Hb b Hin). lia.
+  - exact Hl.
+  - rewrite E in Hs. injection Hs as <-. split; [exact Hlen|]. split.
+    + rewrite <- Hmap. apply map_ext. intro b. rewrite Nat.sub_0_r. reflexivity.
+    + intros i Hi Hni. rewrite <- (Nat.sub_0_r i). apply Hnone; [lia|exact Hni].
+Qed.
+
+Lemma cmd_vols_length v m n qs : cmd_vols v m n = Ok qs -> length qs = n.
+Proof.
+  unfold cmd_vols. destruct v as [x|l|]; [| |discriminate].
+  - destruct (check_volume x (Some m)) as [q|e]; [|discriminate]. intro H. injection H as <-.
+    apply repeat_length.
+  - destruct (check_volumes l m) as [qs'|e]; [|discriminate].
+    destruct (length qs' =? n)%nat eqn:E; [|discriminate]. intro H. injection H as <-.
+    apply Nat.eqb_eq. exact E.
+Qed.
+
+Lemma accepted_lengths n_rows n_cols a m grid site qs lc bs sl sel :
+  accepted n_rows n_cols a m grid site qs lc bs sl sel ->
+  length qs = length (flattenF (c_wells a)) /\ length bs = length (flattenF (c_wells a)).
+Proof.
+  intro A. split.
+  - exact (cmd_vols_length _ _ _ _ (acc_vols _ _ _ _ _ _ _ _ _ _ _ A)).
+  - rewrite (elems_bits_length _ _ (acc_tips _ _ _ _ _ _ _ _ _ _ _ A)).
+    symmetry. exact (acc_len _ _ _ _ _ _ _ _ _ _ _ A).
+Qed.
+
+(** slot i holds a volume exactly when tip i (bit index i-1) is given *)
+Lemma slots_filled_iff bs qs sl :
+  asc_nat bs = true -> (forall b, In b bs -> b < 8) -> length qs = length bs ->
+  slots_struct eight (map tipval bs) qs = Some sl ->
+  forall i, i < 8 -> ((exists h, nth_error sl i = Some (Some h)) <-> In i bs).
+Proof.
+  intros Ha Hb Hl Hs i Hi. destruct (slots_eight bs qs sl Ha Hb Hl Hs) as (Hlen & Hmap & Hnone). split.
+  - intros [h Hh]. destruct (in_dec Nat.eq_dec i bs) as [Hin|Hni]; [exact Hin|].
+    rewrite (Hnone i Hi Hni) in Hh. discriminate.
+  - intro Hin. apply (in_map (fun b => nth_error sl b)) in Hin. rewrite Hmap in Hin.
+    apply in_map_iff in Hin. destruct Hin as [q [Hq _]]. exists (round2c q). symmetry. exact Hq.
+Qed.
+
+(** the fields of the structured command of an accepted call *)
+Lemma accepted_fields kind n_rows n_cols a m grid site qs lc bs sl sel :
+  accepted n_rows n_cols a m grid site qs lc bs sl sel ->
+  let c := the_cmd kind n_rows n_cols a grid site lc bs sl sel in
+  cm_kind c = kind /\
+  c_liquid_class a = PStr (cm_lc c) /\
+  cm_arm c = c_arm a /\
+  c_grid a = PInt (cm_grid c) /\
+  c_site a = PInt (cm_site c + 1) /\
+  cm_mask c = Z.of_N (mask_or bs) /\ (0 <= cm_mask c < 256)%Z /\
+  length (cm_slots c) = 8 /\
+  (forall i, i < 8 -> ((exists h, nth_error (cm_slots c) i = Some (Some h)) <-> In i bs)) /\
+  (forall i, i < 8 -> ((exists h, nth_error (cm_slots c) i = Some (Some h)) <->
+                       Z.testbit (cm_mask c) (Z.of_nat i) = true)).
+Proof.
+  intro A. cbv zeta. unfold the_cmd. cbn [cm_kind cm_lc cm_arm cm_grid cm_site cm_mask cm_slots].
+  destruct (accepted_lengths _ _ _ _ _ _ _ _ _ _ _ A) as [Lq Lb].
+  destruct A as [A1 A2 A3 A4 A5 A6 A7 A8 A9 A10 A11 A12].
+  pose proof (elems_bits_lt8 _ _ A7) as Hb8.
+  assert (Em : fold_right Z.add 0%Z (map tipval bs) = Z.of_N (mask_or bs))
+    by (apply sum_tipvals_or; apply asc_nat_NoDup; exact A8).
+  assert (Lqb : length qs = length bs) by lia.
+  destruct (slots_eight bs qs sl A8 Hb8 Lqb A10) as (Hlen & _ & _).
+  pose proof (slots_filled_iff bs qs sl A8 Hb8 Lqb A10) as Hf.
+  split; [reflexivity|]. split; [exact (proj1 A6)|]. split; [reflexivity|].
+  split; [exact (proj1 A3)|]. split; [rewrite (proj1 A4); f_equal; lia|].
+  split; [exact Em|]. split.
+  { rewrite Em. pose proof (mask_valid_lt256 _ _ A7). lia. }
+  split; [exact Hlen|]. split; [exact Hf|].
+  intros i Hi. rewrite (Hf i Hi), Em, <- nat_N_Z, Z.testbit_of_N, testbit_mask_or.
+  symmetry. apply existsb_eqb_In.
+Qed.
+
+(* ------------------------------------------------------------------ the worklist wrappers *)
+
+Lemma comment_spec w label w' e : comment w label = (w', e) ->
+  w_max w' = w_max w /\ (exists cs, w_recs w' = (w_recs w ++ map RC cs)%list) /\ (e <> None -> w' = w).
+Proof.
+  unfold comment. destruct label as [s|].
+  - destruct (String.eqb s "").
+    + intro H. injection H as <- <-. split; [reflexivity|]. split; [|reflexivity].
+      exists []. cbn [map]. rewrite app_nil_r. reflexivity.
+    + destruct (contains_char semi s).
+      * intro H. injection H as <- <-. split; [reflexivity|]. split; [|reflexivity].
+        exists []. cbn [map]. rewrite app_nil_r. reflexivity.
+      * intro H. injection H as <- <-. split; [reflexivity|]. split; [|congruence].
+        exists (comment_lines s). reflexivity.
+  - intro H. injection H as <- <-. split; [reflexivity|]. split; [|reflexivity].
+    exists []. cbn [map]. rewrite app_nil_r. reflexivity.
+Qed.
+
+Lemma nth_error_upd_other {A} (l : list A) : forall i j x, i <> j -> nth_error (upd l i x) j = nth_error l j.
+Proof.
+  induction l as [|y r IH]; intros i j x H; [destruct i; reflexivity|].
+  destruct i as [|i]; destruct j as [|j]; cbn [upd nth_error]; try reflexivity; try congruence.
+  apply IH. congruence.
+Qed.
+
+Lemma nth_error_upd_same {A} (l : list A) : forall i x y, nth_error l i = Some y -> nth_error (upd l i x) i = Some x.
+Proof.
+  induction l as [|z r IH]; intros i x y H; [destruct i; discriminate|].
+  destruct i as [|i]; cbn [upd nth_error] in *; [reflexivity|]. exact (IH i x y H).
+Qed.
+
+(** the (wells, volumes) the tracking of an evo_aspirate / evo_dispense call works on *)
+Definition track_wells (a : cmdargs) : list string := fst (wells_vols (c_wells a) (evo_vols (c_volume a))).
+Definition track_vols (a : cmdargs) : list xnum := snd (wells_vols (c_wells a) (evo_vols (c_volume a))).
+
+Lemma track_wells_eq a : track_wells a = flattenF (c_wells a).
+Proof. reflexivity. Qed.
+
+Lemma evo_aspirate_accept s k a label s' :
+  evo_aspirate s k a label = (s', None) ->
+  exists L L' w text,
+    nth_error (st_lw s) k = Some L /\
+    remove L (A1 (track_wells a)) (A1 (track_vols a)) label = (L', None) /\
+    comment (st_wl s) label = (w, None) /\
+    evo_command "Aspirate" (n_row_ids (lw_geom L)) (g_cols (lw_geom L)) a (w_max (st_wl s)) = Ok text /\
+    st_lw s' = upd (st_lw s) k L' /\
+    st_wl s' = emit w [RCmd text].
+Proof.
+  unfold evo_aspirate, track_wells, track_vols, wells_vols. cbv zeta. cbn [fst snd].
+  destruct (nth_error (st_lw s) k) as [L|] eqn:EL; [|discriminate].
+  destruct (remove L _ _ label) as [L' [e|]] eqn:ER; [discriminate|].
+  cbn [set_lw st_wl].
+  destruct (comment (st_wl s) label) as [w [e|]] eqn:EC; [discriminate|].
+  destruct (comment_spec _ _ _ _ EC) as (Hmax & _ & _). rewrite Hmax.
+  destruct (evo_command "Aspirate" _ _ a (w_max (st_wl s))) as [text|e] eqn:EV; [|discriminate].
+  intro H. injection H as <-. exists L, L', w, text. cbn [set_wl set_lw st_lw st_wl].
+  repeat split; try assumption; reflexivity.
+Qed.
+
+Lemma evo_dispense_accept s k a label comps s' :
+  evo_dispense s k a label comps = (s', None) ->
+  exists L L' w text,
+    nth_error (st_lw s) k = Some L /\
+    add L (A1 (track_wells a)) (A1 (track_vols a)) label comps = (L', None) /\
+    comment (st_wl s) label = (w, None) /\
+    evo_command "Dispense" (n_row_ids (lw_geom L)) (g_cols (lw_geom L)) a (w_max (st_wl s)) = Ok text /\
+    st_lw s' = upd (st_lw s) k L' /\
+    st_wl s' = emit w [RCmd text].
+Proof.
+  unfold evo_dispense, track_wells, track_vols, wells_vols. cbv zeta. cbn [fst snd].
+  destruct (nth_error (st_lw s) k) as [L|] eqn:EL; [|discriminate].
+  destruct (add L _ _ label comps) as [L' [e|]] eqn:ER; [discriminate|].
+  cbn [set_lw st_wl].
+  destruct (comment (st_wl s) label) as [w [e|]] eqn:EC; [discriminate|].
+  destruct (comment_spec _ _ _ _ EC) as (Hmax & _ & _). rewrite Hmax.
+  destruct (evo_command "Dispense" _ _ a (w_max (st_wl s))) as [text|e] eqn:EV; [|discriminate].
+  intro H. injection H as <-. exists L, L', w, text. cbn [set_wl set_lw st_lw st_wl].
+  repeat split; try assumption; reflexivity.
+Qed.
+
+(** a failing call appends no command: the records grow by label comments at most *)
+Lemma evo_aspirate_reject s k a label s' e :
+  evo_aspirate s k a label = (s', Some e) ->
+  exists cs, w_recs (st_wl s') = (w_recs (st_wl s) ++ map RC cs)%list.
+Proof.
+  unfold evo_aspirate, wells_vols. cbv zeta.
+  destruct (nth_error (st_lw s) k) as [L|] eqn:EL.
+  2:{ intro H. injection H as <- _. exists []. cbn [map]. rewrite app_nil_r. reflexivity. }
+  destruct (remove L _ _ label) as [L' [e0|]] eqn:ER.
+  { intro H. injection H as <- _. exists []. cbn [map set_lw st_wl]. rewrite app_nil_r. reflexivity. }
+  cbn [set_lw st_wl].
+  destruct (comment (st_wl s) label) as [w [e0|]] eqn:EC;
+    destruct (comment_spec _ _ _ _ EC) as (_ & Hcs & _).
+  { intro H. injection H as <- _. exact Hcs. }
+  destruct (evo_command "Aspirate" _ _ a (w_max w)) as [text|e0]; [discriminate|].
+  intro H. injection H as <- _. exact Hcs.
+Qed.
+
+Lemma evo_dispense_reject s k a label comps s' e :
+  evo_dispense s k a label comps = (s', Some e) ->
+  exists cs, w_recs (st_wl s') = (w_recs (st_wl s) ++ map RC cs)%list.
+Proof.
+  unfold evo_dispense, wells_vols. cbv zeta.
+  destruct (nth_error (st_lw s) k) as [L|] eqn:EL.
+  2:{ intro H. injection H as <- _. exists []. cbn [map]. rewrite app_nil_r. reflexivity. }
+  destruct (add L _ _ label comps) as [L' [e0|]] eqn:ER.
+  { intro H. injection H as <- _. exists []. cbn [map set_lw st_wl]. rewrite app_nil_r. reflexivity. }
+  cbn [set_lw st_wl].
+  destruct (comment (st_wl s) label) as [w [e0|]] eqn:EC;
+    destruct (comment_spec _ _ _ _ EC) as (_ & Hcs & _).
+  { intro H. injection H as <- _. exact Hcs. }
+  destruct (evo_command "Dispense" _ _ a (w_max w)) as [text|e0]; [discriminate|].
+  intro H. injection H as <- _. exact Hcs.
+Qed.
+
+(** a command refused by [evo_command] makes the whole call fail with that error *)
+Lemma evo_aspirate_cmd_reject s k a label L L' w e :
+  nth_error (st_lw s) k = Some L ->
+  remove L (A1 (track_wells a)) (A1 (track_vols a)) label = (L', None) ->
+  comment (st_wl s) label = (w, None) ->
+  evo_command "Aspirate" (n_row_ids (lw_geom L)) (g_cols (lw_geom L)) a (w_max (st_wl s)) = Err e ->
+  evo_aspirate s k a label = ({| st_lw := upd (st_lw s) k L'; st_wl := w |}, Some e).
+Proof.
+  intros EL ER EC EV. unfold evo_aspirate. rewrite EL.
+  unfold track_wells, track_vols in ER. destruct (wells_vols (c_wells a) (evo_vols (c_volume a))) as [ws vs].
+  cbn [fst snd] in ER. rewrite ER. cbn [set_lw st_wl]. rewrite EC.
+  destruct (comment_spec _ _ _ _ EC) as (Hmax & _ & _). rewrite Hmax, EV. reflexivity.
+Qed.
+
+(** the tracked volumes of an accepted command are its validated volumes *)
+Lemma broadcast_map_XQ qs n : length qs = n -> broadcast (map XQ qs) n = map XQ qs.
+Proof.
+  intro H. destruct qs as [|q [|q' r]]; try reflexivity.
+  cbn [length] in H. subst n. reflexivity.
+Qed.
+
+Lemma map_repeat {A B} (f : A -> B) x n : map f (repeat x n) = repeat (f x) n.
+Proof. induction n as [|n IH]; [reflexivity|]. cbn [repeat map]. rewrite IH. reflexivity. Qed.
+
+Lemma cmd_vols_track a m qs :
+  cmd_vols (c_volume a) m (length (flattenF (c_wells a))) = Ok qs -> track_vols a = map XQ qs.
+Proof.
+  unfold track_vols, wells_vols, cmd_vols. cbv zeta. cbn [snd].
+  destruct (c_volume a) as [x|l|]; [| |discriminate].
+  - destruct (check_volume x (Some m)) as [q|e] eqn:E; [|discriminate]. intro H. injection H as <-.
+    destruct (check_volume_ok _ _ _ E) as [-> _]. cbn [evo_vols flattenF broadcast].
+    rewrite map_repeat. reflexivity.
+  - destruct (check_volumes l m) as [qs'|e] eqn:E; [|discriminate].
+    destruct (length qs' =? length (flattenF (c_wells a)))%nat eqn:El; [|discriminate].
+    intro H. injection H as <-. apply Nat.eqb_eq in El.
+    destruct (check_volumes_ok _ _ _ E) as [-> _]. cbn [evo_vols flattenF]. rewrite map_map.
+    cbn beta iota. apply broadcast_map_XQ. exact El.
+Qed.
+
+(** what [remove]/[add] make of the tracked lists: they are already broadcast *)
+Lemma track_pairs a :
+  zip (flattenF (A1 (track_wells a))) (broadcast (flattenF (A1 (track_vols a))) (length (flattenF (A1 (track_wells a)))))
+  = zip (track_wells a) (track_vols a).
+Proof.
+  cbn [flattenF]. unfold track_wells, track_vols, wells_vols. cbv zeta. cbn [fst snd]. f_equal.
+  set (n := length (flattenF (c_wells a))). set (l := flattenF (evo_vols (c_volume a))).
+  destruct l as [|x [|y r]]; try reflexivity.
+  cbn [broadcast]. destruct n as [|[|n]]; reflexivity.
+Qed.
+
+(* ------------------------------------------------------------------ wells of one column *)
+
+#[local] Close Scope string_scope.
+
+Lemma n_row_ids_plate R C : n_row_ids {| g_rows := R; g_cols := C; g_vrows := None |} = Nat.min 26 R.
+Proof. reflexivity. Qed.
+
+(** ids the index knows are canonical: [well_id row column] with row and column in range *)
+Lemma wells_indexed R C : forall ws rcs, map (make_well_index R C) ws = map Some rcs ->
+  ws = map (fun rc => well_id (fst rc) (snd rc)) rcs /\
+  Forall (fun rc => fst rc < Nat.min 26 R /\ snd rc < C) rcs.
+Proof.
+  induction ws as [|w r IH]; intros [|rc rcs] H; cbn [map] in H; try discriminate.
+  - split; [reflexivity|constructor].
+  - injection H as Hw Hr. destruct (IH rcs Hr) as [-> HF].
+    unfold make_well_index in Hw. apply well_index_domain in Hw.
+    destruct Hw as (r0 & c0 & Hr0 & Hc0 & -> & ->). rewrite n_row_ids_plate in Hr0.
+    cbn [g_cols g_vrows] in *. split; [reflexivity|]. constructor; [split; assumption|exact HF].
+Qed.
+
+Lemma wells_indexed_conv R C rcs :
+  Forall (fun rc => fst rc < Nat.min 26 R /\ snd rc < C) rcs ->
+  map (make_well_index R C) (map (fun rc => well_id (fst rc) (snd rc)) rcs) = map Some rcs.
+Proof.
+  induction rcs as [|[r c] rcs IH]; intro H; [reflexivity|].
+  inversion H as [|x l [Hr Hc] HF]; subst x l. cbn [map fst snd] in *. rewrite (IH HF). f_equal.
+  unfold make_well_index. rewrite well_index_ok; [reflexivity| |exact Hc].
+  rewrite n_row_ids_plate. exact Hr.
+Qed.
+
+Lemma selected_columns_rcs R C : forall ws rcs, map (make_well_index R C) ws = map Some rcs ->
+  selected_columns R C ws = length (filter (fun c => existsb (fun rc => snd rc =? c) rcs) (seq 0 C)).
+Proof.
+  intros ws rcs H. unfold selected_columns. f_equal. apply filter_ext. intro c.
+  revert rcs H. induction ws as [|w r IH]; intros [|rc rcs] H; cbn [map] in H; try discriminate; [reflexivity|].
+  injection H as Hw Hr. cbn [existsb]. rewrite Hw, (IH rcs Hr). reflexivity.
+Qed.
+
+Lemma filter_two_length (p : nat -> bool) s n c1 c2 :
+  In c1 (seq s n) -> In c2 (seq s n) -> p c1 = true -> p c2 = true -> c1 <> c2 ->
+  2 <= length (filter p (seq s n)).
+Proof.
+  intros I1 I2 P1 P2 Hne.
+  assert (ND : NoDup [c1; c2]).
+  { constructor; [intros [C|[]]; congruence|]. constructor; [intros []|constructor]. }
+  change 2 with (length [c1; c2]). apply NoDup_incl_length; [exact ND|].
+  intros x [<-|[<-|[]]]; apply filter_In; split; assumption.
+Qed.
+
+(** wells in two different columns: at least two selected columns *)
+Lemma selected_columns_two R C ws w1 w2 rc1 rc2 :
+  In w1 ws -> In w2 ws -> make_well_index R C w1 = Some rc1 -> make_well_index R C w2 = Some rc2 ->
+  snd rc1 <> snd rc2 -> 2 <= selected_columns R C ws.
+Proof.
+  intros I1 I2 H1 H2 Hne. unfold selected_columns.
+  assert (B1 : snd rc1 < C).
+  { unfold make_well_index in H1. apply well_index_domain in H1.
+    destruct H1 as (r0 & c0 & _ & Hc0 & _ & ->). exact Hc0. }
+  assert (B2 : snd rc2 < C).
+  { unfold make_well_index in H2. apply well_index_domain in H2.
+    destruct H2 as (r0 & c0 & _ & Hc0 & _ & ->). exact Hc0. }
+  apply (filter_two_length _ 0 C (snd rc1) (snd rc2)); try (apply in_seq; lia); try exact Hne.
+  - apply existsb_exists. exists w1. split; [exact I1|]. rewrite H1. apply Nat.eqb_refl.
+  - apply existsb_exists. exists w2. split; [exact I2|]. rewrite H2. apply Nat.eqb_refl.
+Qed.
+
+(** at most one selected column: all wells lie in the same column *)
+Lemma selected_columns_le1 R C ws rcs : map (make_well_index R C) ws = map Some rcs ->
+  selected_columns R C ws <= 1 -> forall rc1 rc2, In rc1 rcs -> In rc2 rcs -> snd rc1 = snd rc2.
+Proof.
+  intros Hm Hle rc1 rc2 I1 I2. destruct (Nat.eq_dec (snd rc1) (snd rc2)) as [E|Hne]; [exact E|exfalso].
+  assert (J : forall rc, In rc rcs -> exists w, In w ws /\ make_well_index R C w = Some rc).
+  { intros rc Hin. apply (in_map Some) in Hin. rewrite <- Hm in Hin. apply in_map_iff in Hin.
+    destruct Hin as [w [Hw Hin]]. exists w. split; assumption. }
+  destruct (J rc1 I1) as [w1 [Iw1 H1]]. destruct (J rc2 I2) as [w2 [Iw2 H2]].
+  pose proof (selected_columns_two R C ws w1 w2 rc1 rc2 Iw1 Iw2 H1 H2 Hne). lia.
+Qed.
+
+Lemma filter_eqb_seq c : forall n s, s <= c < s + n -> filter (fun x => x =? c) (seq s n) = [c].
+Proof.
+  induction n as [|n IH]; intros s H; [lia|]. cbn [seq filter].
+  destruct (Nat.eqb_spec s c) as [->|Hne].
+  - f_equal. apply filter_nil_iff. intros z Hz. apply in_seq in Hz. apply Nat.eqb_neq. lia.
+  - apply IH. lia.
+Qed.
+
+(** a non-empty set of wells of one column: exactly one selected column *)
+Lemma selected_columns_one R C ws rcs c : map (make_well_index R C) ws = map Some rcs ->
+  rcs <> [] -> (forall rc, In rc rcs -> snd rc = c) -> selected_columns R C ws = 1.
+Proof.
+  intros Hm Hne Hc. rewrite (selected_columns_rcs R C ws rcs Hm).
+  destruct (wells_indexed R C ws rcs Hm) as [_ HF].
+  destruct rcs as [|rc0 rcs']; [congruence|].
+  assert (Hc0 : c < C).
+  { inversion HF as [|x l [_ Hx] _]; subst x l. rewrite <- (Hc rc0 (or_introl eq_refl)). exact Hx. }
+  rewrite (filter_ext _ (fun x => x =? c)).
+  - rewrite filter_eqb_seq by lia. reflexivity.
+  - intro x. destruct (Nat.eqb_spec x c) as [->|Hx].
+    + apply existsb_exists. exists rc0. split; [left; reflexivity|].
+      rewrite (Hc rc0 (or_introl eq_refl)). apply Nat.eqb_refl.
+    + destruct (existsb (fun rc => snd rc =? x) (rc0 :: rcs')) eqn:E; [|reflexivity].
+      apply existsb_exists in E. destruct E as [rc [Hin E]]. apply Nat.eqb_eq in E.
+      rewrite (Hc rc Hin) in E. congruence.
+Qed.
+
+(** within one column the string order of the ids is the order of the rows *)
+Lemma strictly_ascending_rows c rs : Forall (fun r => r < 26) rs ->
+  strictly_ascending_str (map (fun r => well_id r c) rs) = asc_nat rs.
+Proof.
+  induction rs as [|a [|b r] IH]; intro H; try reflexivity.
+  change (strictly_ascending_str (map (fun r => well_id r c) (a :: b :: r)))
+    with (negb (str_leb (well_id b c) (well_id a c)) &&
+          strictly_ascending_str (map (fun r => well_id r c) (b :: r))).
+  change (asc_nat (a :: b :: r)) with ((a <? b)%nat && asc_nat (b :: r)).
+  inversion H as [|x l Ha H']; subst x l. inversion H' as [|x l Hb _]; subst x l.
+  rewrite (IH H'), well_id_row_order by assumption. rewrite (Nat.ltb_antisym b a). reflexivity.
+Qed.
+
+Lemma same_column_rcs (rcs : list (nat * nat)) c : (forall rc, In rc rcs -> snd rc = c) ->
+  rcs = map (fun r => (r, c)) (map fst rcs).
+Proof.
+  induction rcs as [|[r c'] rcs IH]; intro H; [reflexivity|]. cbn [map fst].
+  rewrite <- IH by (intros rc Hin; apply H; right; exact Hin).
+  specialize (H (r, c') (or_introl eq_refl)). cbn [snd] in H. subst c'. reflexivity.
+Qed.
+
+(** the bridge: for ids of one column, "ascending ids" is "ascending rows" *)
+Lemma single_column_order R C ws rcs c : map (make_well_index R C) ws = map Some rcs ->
+  (forall rc, In rc rcs -> snd rc = c) ->
+  strictly_ascending_str ws = asc_nat (map fst rcs).
+Proof.
+  intros Hm Hc. destruct (wells_indexed R C ws rcs Hm) as [-> HF].
+  rewrite (same_column_rcs rcs c Hc) at 1. rewrite !map_map. cbn [fst snd].
+  rewrite <- (map_map fst (fun r => well_id r c)). apply strictly_ascending_rows.
+  apply Forall_forall. intros r Hr. apply in_map_iff in Hr. destruct Hr as [rc [<- Hin]].
+  rewrite Forall_forall in HF. destruct (HF rc Hin) as [Hlt _]. lia.
+Qed.
+
+Lemma single_column R C ws rcs :
+  map (make_well_index R C) ws = map Some rcs ->
+  (selected_columns R C ws <= 1 <-> exists c, forall rc, In rc rcs -> snd rc = c) /\
+  (forall c, (forall rc, In rc rcs -> snd rc = c) ->
+     (rcs <> [] -> selected_columns R C ws = 1) /\
+     strictly_ascending_str ws = asc_nat (map fst rcs)).
+Proof.
+  intro Hm. split.
+  - split.
+    + intro Hle. destruct rcs as [|rc0 rcs'] eqn:E; [exists 0; intros rc []|]. rewrite <- E in *.
+      exists (snd rc0). intros rc Hin. apply (selected_columns_le1 R C ws rcs Hm Hle); [exact Hin|].
+      rewrite E. left. reflexivity.
+    + intros [c Hc]. destruct rcs as [|rc0 rcs'] eqn:E.
+      * destruct ws as [|w ws']; [|discriminate Hm]. unfold selected_columns. cbn [existsb].
+        rewrite filter_nil_iff by reflexivity. cbn [length]. lia.
+      * rewrite <- E in *. rewrite (selected_columns_one R C ws rcs c Hm); [lia| |exact Hc].
+        rewrite E. discriminate.
+  - intros c Hc. split.
+    + intro Hne. exact (selected_columns_one R C ws rcs c Hm Hne Hc).
+    + exact (single_column_order R C ws rcs c Hm Hc).
+Qed.
+
+(* ------------------------------------------------------------------ decoding an accepted command *)
+
+(** an ascending list within [s, s+n) is recovered by filtering the range for membership *)
+Lemma filter_member_asc : forall n s bs, asc_nat bs = true -> (forall b, In b bs -> s <= b < s + n) ->
+  filter (fun i => existsb (Nat.eqb i) bs) (seq s n) = bs.
+Proof.
+  induction n as [|n IH]; intros s bs Ha Hb.
+  - destruct bs as [|b bs']; [reflexivity|]. specialize (Hb b (or_introl eq_refl)). lia.
+  - cbn [seq filter]. destruct (existsb (Nat.eqb s) bs) eqn:Es.
+    + apply existsb_eqb_In in Es.
+      destruct (asc_nat_head s bs Ha (fun b Hin => proj1 (Hb b Hin)) Es) as [bs' ->].
+      apply asc_nat_cons in Ha. destruct Ha as [Ha1 Ha2]. f_equal.
+      transitivity (filter (fun i => existsb (Nat.eqb i) bs') (seq (S s) n)); [|apply (IH (S s) bs' Ha2)].
+      * apply filter_ext_in. intros i Hi. apply in_seq in Hi. cbn [existsb].
+        replace (i =? s) with false by (symmetry; apply Nat.eqb_neq; lia). reflexivity.
+      * intros b Hin. specialize (Ha1 b Hin). specialize (Hb b (or_intror Hin)). lia.
+    + apply existsb_eqb_false in Es. apply IH; [exact Ha|].
+      intros b Hin. specialize (Hb b Hin). assert (Hbs : b <> s) by (intro C; subst b; contradiction). lia.
+Qed.
+
+Lemma mask_tips_or bs : asc_nat bs = true -> (forall b, In b bs -> b < 8) ->
+  mask_tips (Z.of_N (mask_or bs)) = bs.
+Proof.
+  intros Ha Hb. unfold mask_tips.
+  transitivity (filter (fun i => existsb (Nat.eqb i) bs) (seq 0 8)).
+  - apply filter_ext. intro i. rewrite <- nat_N_Z, Z.testbit_of_N. apply testbit_mask_or.
+  - apply (filter_member_asc 8 0 bs Ha). intros b Hin. specialize (Hb b Hin). lia.
+Qed.
+
+Lemma flat_map_ext_in {A B} (f g : A -> list B) l :
+  (forall x, In x l -> f x = g x) -> flat_map f l = flat_map g l.
+Proof.
+  induction l as [|a r IH]; intro H; [reflexivity|]. cbn [flat_map].
+  rewrite (H a (or_introl eq_refl)), IH; [reflexivity|]. intros x Hx. apply H. right. exact Hx.
+Qed.
+
+Lemma flat_map_nil {A B} (f : A -> list B) l : (forall x, In x l -> f x = []) -> flat_map f l = [].
+Proof.
+  induction l as [|a r IH]; intro H; [reflexivity|]. cbn [flat_map].
+  rewrite (H a (or_introl eq_refl)), IH; [reflexivity|]. intros x Hx. apply H. right. exact Hx.
+Qed.
+
+Lemma flat_map_single {B} (g : nat -> list B) c0 : forall n s, s <= c0 < s + n ->
+  (forall c, c <> c0 -> g c = []) -> flat_map g (seq s n) = g c0.
+Proof.
+  induction n as [|n IH]; intros s H Hg; [lia|]. cbn [seq flat_map].
+  destruct (Nat.eq_dec s c0) as [->|Hne].
+  - rewrite flat_map_nil; [apply app_nil_r|]. intros x Hx. apply in_seq in Hx. apply Hg. lia.
+  - rewrite (Hg s Hne). cbn [app]. apply IH; [lia|exact Hg].
+Qed.
+
+(** blocks of equal length: length and indexing of the concatenation *)
+Lemma flat_map_blocks_length {B} (g : nat -> list B) rows : (forall c, length (g c) = rows) ->
+  forall n s, length (flat_map g (seq s n)) = n * rows.
+Proof.
+  intros Hg. induction n as [|n IH]; intro s; [reflexivity|].
+  cbn [seq flat_map]. rewrite app_length, Hg, IH. reflexivity.
+Qed.
+
+Lemma flat_map_blocks_nth {B} (g : nat -> list B) rows d : (forall c, length (g c) = rows) ->
+  forall n s c r, c < n -> r < rows -> nth (c * rows + r) (flat_map g (seq s n)) d = nth r (g (s + c)) d.
+Proof.
+  intros Hg. induction n as [|n IH]; intros s c r Hc Hr; [lia|]. cbn [seq flat_map].
+  destruct c as [|c'].
+  - cbn [Nat.mul Nat.add]. rewrite app_nth1 by (rewrite Hg; exact Hr). rewrite Nat.add_0_r. reflexivity.
+  - rewrite app_nth2 by (rewrite Hg; cbn [Nat.mul]; lia). rewrite Hg.
+    replace (S c' * rows + r - rows) with (c' * rows + r) by (cbn [Nat.mul]; lia).
+    rewrite IH by lia. f_equal. f_equal. lia.
+Qed.
+
+(** the selection bitmap of wells of one column, and what the decoder reads from it *)
+Definition sel_of (rows cols : nat) (rcs : list (nat * nat)) : list bool :=
+  flat_map (fun c => map (fun r => existsb (fun rc => (fst rc =? r) && (snd rc =? c)) rcs) (seq 0 rows))
+           (seq 0 cols).
+
+Lemma sel_of_length rows cols rcs : length (sel_of rows cols rcs) = cols * rows.
+Proof.
+  unfold sel_of. apply flat_map_blocks_length. intro c. rewrite map_length, seq_length. reflexivity.
+Qed.
+
+Lemma sel_of_nth rows cols rcs c r : c < cols -> r < rows ->
+  nth (c * rows + r) (sel_of rows cols rcs) false =
+  existsb (fun rc => (fst rc =? r) && (snd rc =? c)) rcs.
+Proof.
+  intros Hc Hr. unfold sel_of.
+  rewrite (flat_map_blocks_nth _ rows false) by
+    (try (intro c'; rewrite map_length, seq_length; reflexivity); assumption).
+  cbn [Nat.add]. rewrite (nth_map_seq _ false rows 0 r Hr). reflexivity.
+Qed.
+
+Lemma selected_wells_sel_of rows cols rcs :
+  selected_wells rows cols (sel_of rows cols rcs) =
+  flat_map (fun c => flat_map (fun r => if existsb (fun rc => (fst rc =? r) && (snd rc =? c)) rcs
+                                        then [(r, c)] else []) (seq 0 rows)) (seq 0 cols).
+Proof.
+  unfold selected_wells. apply flat_map_ext_in. intros c Hc. apply in_seq in Hc.
+  apply flat_map_ext_in. intros r Hr. apply in_seq in Hr.
+  rewrite sel_of_nth by lia. reflexivity.
+Qed.
+
+Lemma flat_map_filter_map {A B} (p : A -> bool) (f : A -> B) l :
+  flat_map (fun x => if p x then [f x] else []) l = map f (filter p l).
+Proof.
+  induction l as [|a r IH]; [reflexivity|]. cbn [flat_map filter]. rewrite IH.
+  destruct (p a); reflexivity.
+Qed.
+
+Lemma existsb_column c0 rs r c :
+  existsb (fun rc => (fst rc =? r) && (snd rc =? c)) (map (fun r' : nat => (r', c0)) rs)
+  = existsb (Nat.eqb r) rs && (c0 =? c).
+Proof.
+  induction rs as [|x xs IH]; [reflexivity|]. cbn [map existsb fst snd]. rewrite IH.
+  rewrite (Nat.eqb_sym x r). destruct (r =? x), (c0 =? c), (existsb (Nat.eqb r) xs); reflexivity.
+Qed.
+
+(** wells of one column with ascending rows are read back exactly, in that order *)
+Lemma selected_wells_column rows cols c0 rs :
+  asc_nat rs = true -> (forall r, In r rs -> r < rows) -> (rs <> [] -> c0 < cols) ->
+  selected_wells rows cols (sel_of rows cols (map (fun r => (r, c0)) rs)) = map (fun r => (r, c0)) rs.
+Proof.
+  intros Ha Hr Hc. rewrite selected_wells_sel_of.
+  pose proof (existsb_column c0 rs) as E.
+  destruct rs as [|r0 rs'] eqn:Ers.
+  - cbn [map]. apply flat_map_nil. intros c _. apply flat_map_nil. intros r _. reflexivity.
+  - rewrite <- Ers in *. assert (Hc0 : c0 < cols) by (apply Hc; rewrite Ers; discriminate).
+    rewrite (flat_map_single _ c0 cols 0); [|lia|].
+    + rewrite (flat_map_ext_in _ (fun r => if existsb (Nat.eqb r) rs then [(r, c0)] else [])).
+      * rewrite (flat_map_filter_map (fun r => existsb (Nat.eqb r) rs) (fun r => (r, c0))).
+        rewrite (filter_member_asc rows 0 rs Ha); [reflexivity|].
+        intros b Hin. specialize (Hr b Hin). lia.
+      * intros r _. rewrite E, Nat.eqb_refl, andb_true_r. reflexivity.
+    + intros c Hne. apply flat_map_nil. intros r _. rewrite E.
+      replace (c0 =? c) with false by (symmetry; apply Nat.eqb_neq; congruence).
+      rewrite andb_false_r. reflexivity.
+Qed.
+
+Lemma same_column_map c0 rs : same_column (map (fun r : nat => (r, c0)) rs) = true.
+Proof.
+  destruct rs as [|r rs']; [reflexivity|]. cbn [map same_column snd]. apply forallb_forall.
+  intros x Hx. apply in_map_iff in Hx. destruct Hx as [r' [<- _]]. apply Nat.eqb_refl.
+Qed.
+
+(** the effect (row, column, volume in ul as hundredths / 100) of wells [rcs] with volumes [qs] *)
+Definition effect_of (rcs : list (nat * nat)) (qs : list Q) : list (nat * nat * Q) :=
+  map (fun p => (fst (fst p), snd (fst p), round2c (snd p) # 100)) (zip rcs qs).
+
+Lemma pair_up_slots sl : forall ws bs qs, length ws = length bs -> length qs = length bs ->
+  map (fun b => nth_error sl b) bs = map (fun q => Some (Some (round2c q))) qs ->
+  pair_up ws bs sl = Some (effect_of ws qs).
+Proof.
+  induction ws as [|rc ws IH]; intros [|b bs] [|q qs] Hw Hq Hm; cbn [length] in *; try discriminate.
+  - reflexivity.
+  - cbn [map] in Hm. injection Hm as Hb Hm. cbn [pair_up]. rewrite Hb.
+    rewrite (IH bs qs) by (try lia; exact Hm). reflexivity.
+Qed.
+
+(** decoding the structured command of an accepted call *)
+Lemma accepted_decode kind n_rows n_cols a m grid site qs lc bs sl sel :
+  n_rows <= 26 -> n_cols < 256 ->
+  accepted n_rows n_cols a m grid site qs lc bs sl sel ->
+  exists rcs,
+    map (make_well_index n_rows n_cols) (flattenF (c_wells a)) = map Some rcs /\
+    length qs = length rcs /\
+    track_vols a = map XQ qs /\
+    decode_effect n_rows n_cols (the_cmd kind n_rows n_cols a grid site lc bs sl sel) = Some (effect_of rcs qs).
+Proof.
+  intros HR HC A.
+  destruct (accepted_lengths _ _ _ _ _ _ _ _ _ _ _ A) as [Lq Lb].
+  pose proof (cmd_vols_track _ _ _ (acc_vols _ _ _ _ _ _ _ _ _ _ _ A)) as Htrack.
+  destruct A as [A1 A2 A3 A4 A5 A6 A7 A8 A9 A10 A11 A12].
+  destruct (selection_array_some _ _ _ _ A11) as (rcs & Hm & Hsel).
+  rewrite (Nat.min_r 26 n_rows HR) in Hsel. fold (sel_of n_rows n_cols rcs) in Hsel.
+  assert (Lr : length rcs = length (flattenF (c_wells a))).
+  { apply (f_equal (@length _)) in Hm. rewrite !map_length in Hm. symmetry. exact Hm. }
+  exists rcs. split; [exact Hm|]. split; [lia|]. split; [exact Htrack|].
+  (* one column, ascending rows *)
+  destruct (proj1 (proj1 (single_column n_rows n_cols _ rcs Hm)) A12) as [c0 Hc0].
+  pose proof (single_column_order n_rows n_cols _ rcs c0 Hm Hc0) as Hord. rewrite A2 in Hord. symmetry in Hord.
+  destruct (wells_indexed n_rows n_cols _ rcs Hm) as [_ HF]. rewrite (Nat.min_r 26 n_rows HR) in HF.
+  rewrite Forall_forall in HF.
+  pose proof (same_column_rcs rcs c0 Hc0) as Ercs. set (rs := map fst rcs) in *.
+  assert (Hrs : forall r, In r rs -> r < n_rows).
+  { intros r Hr. apply in_map_iff in Hr. destruct Hr as [rc [<- Hin]]. exact (proj1 (HF rc Hin)). }
+  assert (Hcc : rs <> [] -> c0 < n_cols).
+  { intro Hne. destruct rcs as [|rc0 rcs']; [exfalso; apply Hne; reflexivity|].
+    rewrite <- (Hc0 rc0 (or_introl eq_refl)). exact (proj2 (HF rc0 (or_introl eq_refl))). }
+  (* the tips and slots *)
+  pose proof (elems_bits_lt8 _ _ A7) as Hb8.
+  assert (Em : fold_right Z.add 0%Z (map tipval bs) = Z.of_N (mask_or bs))
+    by (apply sum_tipvals_or; apply asc_nat_NoDup; exact A8).
+  assert (Lqb : length qs = length bs) by lia.
+  destruct (slots_eight bs qs sl A8 Hb8 Lqb A10) as (_ & Hmap & _).
+  (* the selection string *)
+  unfold decode_effect, the_cmd. cbn [cm_sel cm_mask cm_slots].
+  rewrite evo_get_selection_decode; [|lia|lia|rewrite Hsel, sel_of_length; apply Nat.mul_comm].
+  rewrite !Nat.eqb_refl. cbn [andb].
+  replace (length sel =? n_rows * n_cols) with true
+    by (symmetry; apply Nat.eqb_eq; rewrite Hsel, sel_of_length; apply Nat.mul_comm).
+  rewrite Hsel, Ercs, (selected_wells_column n_rows n_cols c0 rs Hord Hrs Hcc), same_column_map.
+  rewrite Em, (mask_tips_or bs A8 Hb8).
+  apply pair_up_slots; [rewrite map_length; unfold rs; rewrite map_length; lia|exact Lqb|exact Hmap].
+Qed.
+
+Lemma evo_command_agree kind n_rows n_cols a m text :
+  n_rows <= 26 -> n_cols < 256 ->
+  evo_command kind n_rows n_cols a m = Ok text ->
+  exists c qs rcs,
+    evo_command_struct kind n_rows n_cols a m = Ok c /\ text = render_cmd c /\
+    map (make_well_index n_rows n_cols) (flattenF (c_wells a)) = map Some rcs /\
+    length qs = length rcs /\
+    track_vols a = map XQ qs /\
+    decode_effect n_rows n_cols c = Some (effect_of rcs qs).
+Proof.
+  intros HR HC H. destruct (evo_command_struct_text _ _ _ _ _ _ H) as (c & Hc & ->).
+  pose proof Hc as Hc'. apply evo_command_struct_iff in Hc'.
+  destruct Hc' as (grid & site & qs & lc & bs & sl & sel & A & ->).
+  destruct (accepted_decode kind n_rows n_cols a m grid site qs lc bs sl sel HR HC A)
+    as (rcs & Hm & Hl & Ht & Hd).
+  exists (the_cmd kind n_rows n_cols a grid site lc bs sl sel), qs, rcs.
+  repeat split; assumption.
+Qed.
+
+(* ------------------------------------------------------------------ command and ledger side by side *)
+
+From Robo Require Import Invariants LabwareProofs.
+
+(** flat index of the real well behind (row letter index, column): troughs have one real row *)
+Definition real_index (g : geom) (rc : nat * nat) : nat :=
+  flat_index g (match g_vrows g with Some _ => 0 | None => fst rc end, snd rc).
+
+Lemma events_of_indexed L : forall rcs qs,
+  Forall (fun rc => fst rc < n_row_ids (lw_geom L) /\ snd rc < g_cols (lw_geom L)) rcs ->
+  length qs = length rcs ->
+  events_of L (zip (map (fun rc => well_id (fst rc) (snd rc)) rcs) (map XQ qs))
+  = Some (zip (map (real_index (lw_geom L)) rcs) qs).
+Proof.
+  induction rcs as [|rc rcs IH]; intros [|q qs] HF Hl; cbn [length] in Hl; try discriminate; [reflexivity|].
+  inversion HF as [|x l [Hr Hc] HF']; subst x l. cbn [map zip events_of].
+  unfold lw_index at 1. rewrite (well_index_ok _ _ _ Hr Hc). rewrite (IH qs HF') by lia. reflexivity.
+Qed.
+
+Lemma evo_command_ledger_bridge kind L a m text :
+  g_cols (lw_geom L) < 256 ->
+  evo_command kind (n_row_ids (lw_geom L)) (g_cols (lw_geom L)) a m = Ok text ->
+  exists c qs rcs,
+    text = render_cmd c /\
+    decode_effect (n_row_ids (lw_geom L)) (g_cols (lw_geom L)) c = Some (effect_of rcs qs) /\
+    length qs = length rcs /\
+    events_of L (zip (track_wells a) (track_vols a)) = Some (zip (map (real_index (lw_geom L)) rcs) qs).
+Proof.
+  intros HC H.
+  destruct (evo_command_agree _ _ _ _ _ _ (n_row_ids_le (lw_geom L)) HC H)
+    as (c & qs & rcs & _ & -> & Hm & Hl & Ht & Hd).
+  exists c, qs, rcs. split; [reflexivity|]. split; [exact Hd|]. split; [exact Hl|].
+  destruct (wells_indexed _ _ _ _ Hm) as [Hw HF]. rewrite track_wells_eq, Hw, Ht.
+  apply events_of_indexed; [|exact Hl].
+  apply Forall_forall. intros rc Hin. rewrite Forall_forall in HF. destruct (HF rc Hin) as [H1 H2].
+  split; [lia|exact H2].
+Qed.
+
+(** accepted evo_aspirate: the emitted command, decoded, names the wells [rcs] with the volumes [qs]
+    (to two decimals), and the tracked labware changed by exactly [- qs] on those wells *)
+Lemma evo_aspirate_ledger s k a label s' L :
+  evo_aspirate s k a label = (s', None) -> nth_error (st_lw s) k = Some L -> wf_shape L ->
+  g_cols (lw_geom L) < 256 ->
+  exists L' w text c rcs qs,
+    nth_error (st_lw s') k = Some L' /\ st_wl s' = emit w [RCmd text] /\
+    text = render_cmd c /\
+    decode_effect (n_row_ids (lw_geom L)) (g_cols (lw_geom L)) c = Some (effect_of rcs qs) /\
+    length qs = length rcs /\
+    length (lw_vols L') = length (lw_vols L) /\
+    forall j, (nth j (lw_vols L') 0 ==
+               nth j (lw_vols L) 0 + delta (neg_events (zip (map (real_index (lw_geom L)) rcs) qs)) j)%Q.
+Proof.
+  intros H HL HS HC. destruct (evo_aspirate_accept _ _ _ _ _ H) as (L0 & L' & w & text & EL & ER & EC & EV & Elw & Ewl).
+  rewrite HL in EL. injection EL as <-.
+  destruct (evo_command_ledger_bridge _ L a _ text HC EV) as (c & qs & rcs & -> & Hd & Hl & Hev).
+  destruct (remove_ledger _ _ _ _ _ ER HS) as (evs & Hevs & Hlen & HJ).
+  rewrite track_pairs, Hev in Hevs. injection Hevs as <-.
+  exists L', w, (render_cmd c), c, rcs, qs.
+  split; [rewrite Elw; exact (nth_error_upd_same _ _ _ _ HL)|].
+  split; [exact Ewl|]. split; [reflexivity|]. split; [exact Hd|]. split; [exact Hl|].
+  split; [exact Hlen|exact HJ].
+Qed.
+
+Lemma evo_dispense_ledger s k a label comps s' L :
+  evo_dispense s k a label comps = (s', None) -> nth_error (st_lw s) k = Some L -> wf_shape L ->
+  g_cols (lw_geom L) < 256 ->
+  exists L' w text c rcs qs,
+    nth_error (st_lw s') k = Some L' /\ st_wl s' = emit w [RCmd text] /\
+    text = render_cmd c /\
+    decode_effect (n_row_ids (lw_geom L)) (g_cols (lw_geom L)) c = Some (effect_of rcs qs) /\
+    length qs = length rcs /\
+    length (lw_vols L') = length (lw_vols L) /\
+    forall j, (nth j (lw_vols L') 0 ==
+               nth j (lw_vols L) 0 + delta (zip (map (real_index (lw_geom L)) rcs) qs) j)%Q.
+Proof.
+  intros H HL HS HC. destruct (evo_dispense_accept _ _ _ _ _ _ H) as (L0 & L' & w & text & EL & ER & EC & EV & Elw & Ewl).
+  rewrite HL in EL. injection EL as <-.
+  destruct (evo_command_ledger_bridge _ L a _ text HC EV) as (c & qs & rcs & -> & Hd & Hl & Hev).
+  destruct (add_ledger _ _ _ _ _ _ ER HS) as (evs & Hevs & Hlen & HJ).
+  rewrite track_pairs, Hev in Hevs. injection Hevs as <-.
+  exists L', w, (render_cmd c), c, rcs, qs.
+  split; [rewrite Elw; exact (nth_error_upd_same _ _ _ _ HL)|].
+  split; [exact Ewl|]. split; [reflexivity|]. split; [exact Hd|]. split; [exact Hl|].
+  split; [exact Hlen|exact HJ].
+Qed.
+
+(* ------------------------------------------------------------------ packaged statements for Props/C13 *)
+
+Lemma reject_shape kind R C a m :
+  let wells := flattenF (c_wells a) in
+  let r := evo_command kind R C a m in
+  (length wells <> length (c_tips a) -> r = Err EReject) /\
+  (strictly_ascending_str wells = false -> r = Err EReject) /\
+  (~ NoDup wells -> r = Err EReject) /\
+  (forall l1 x y l2, wells = l1 ++ x :: y :: l2 -> str_leb y x = true -> r = Err EReject) /\
+  ((exists x, In x (c_tips a) /\ elem_bit x = None) -> exists e, r = Err e) /\
+  (In TAny (c_tips a) \/ In TOther (c_tips a) -> exists e, r = Err e) /\
+  (forall bs, elems_bits (c_tips a) = Some bs -> asc_nat bs = false -> exists e, r = Err e) /\
+  (2 <= selected_columns R C wells -> exists e, r = Err e) /\
+  (forall w1 w2 rc1 rc2, In w1 wells -> In w2 wells ->
+     make_well_index R C w1 = Some rc1 -> make_well_index R C w2 = Some rc2 -> snd rc1 <> snd rc2 ->
+     exists e, r = Err e) /\
+  ((exists w, In w wells /\ make_well_index R C w = None) -> exists e, r = Err e).
+Proof.
+  cbv zeta. repeat split.
+  - apply reject_length.
+  - apply reject_wells_order.
+  - apply reject_repeated_well.
+  - intros l1 x y l2 E H. apply reject_wells_order. rewrite E. apply strictly_ascending_str_pair. exact H.
+  - apply reject_tips_invalid.
+  - intros [H|H]; apply reject_tips_invalid; [exists TAny|exists TOther]; (split; [exact H|reflexivity]).
+  - intros bs. apply reject_tips_order.
+  - apply reject_columns.
+  - intros w1 w2 rc1 rc2 I1 I2 H1 H2 Hne. apply reject_columns.
+    exact (selected_columns_two R C _ w1 w2 rc1 rc2 I1 I2 H1 H2 Hne).
+  - apply reject_unknown_well.
+Qed.
+
+Lemma reject_ranges kind R C a m :
+  let r := evo_command kind R C a m in
+  (c_grid a = PNotInt \/ (exists z, c_grid a = PInt z /\ (z < 1 \/ 67 < z)%Z) -> r = Err EReject) /\
+  (c_site a = PNotInt \/ (exists z, c_site a = PInt z /\ (z < 1 \/ 128 < z)%Z) -> r = Err EReject) /\
+  (c_arm a <> 0%Z -> c_arm a <> 1%Z -> exists e, r = Err e) /\
+  (c_liquid_class a = PNotStr \/ (exists s, c_liquid_class a = PStr s /\ contains_char semi s = true) ->
+   exists e, r = Err e).
+Proof.
+  cbv zeta. repeat split.
+  - apply reject_grid.
+  - apply reject_site.
+  - apply reject_arm.
+  - apply reject_liquid_class.
+Qed.
+
+Definition bad_volume (x : pvol) : Prop :=
+  x = PVBad \/ x = PV XNaN \/ x = PV XPInf \/ x = PV XNInf \/ (exists q, x = PV (XQ q) /\ (q < 0)%Q).
+
+Lemma reject_volumes kind R C a m :
+  let wells := flattenF (c_wells a) in
+  let r := evo_command kind R C a m in
+  (* one volume for all wells *)
+  (forall x, c_volume a = CVScalar x -> bad_volume x -> r = Err EReject) /\
+  (forall q, c_volume a = CVScalar (PV (XQ q)) -> (0 <= q)%Q -> (q <= max_tecan_volume)%Q -> (m < q)%Q ->
+     r = Err EInvalidOp \/ r = Err EReject) /\
+  (* one volume per well *)
+  (forall l x, c_volume a = CVList l -> In x l -> bad_volume x -> exists e, r = Err e) /\
+  (forall l q, c_volume a = CVList l -> In (PV (XQ q)) l -> (m < q)%Q -> exists e, r = Err e) /\
+  (forall l, c_volume a = CVList l -> length l <> length wells -> exists e, r = Err e) /\
+  (c_volume a = CVOther -> exists e, r = Err e) /\
+  (* the error is the volume's own error when wells, tips order, grid and site are fine *)
+  (forall e g s, length wells = length (c_tips a) -> strictly_ascending_str wells = true ->
+     c_grid a = PInt g -> (1 <= g <= 67)%Z -> c_site a = PInt s -> (1 <= s <= 128)%Z ->
+     cmd_vols (c_volume a) m (length wells) = Err e -> r = Err e).
+Proof.
+  cbv zeta. repeat split.
+  - intros x Hv Hx. pose proof (cmd_vols_scalar_bad x m (length (flattenF (c_wells a))) Hx) as E.
+    rewrite <- Hv in E. destruct (reject_volume kind R C a m _ E) as [X|X]; exact X.
+  - intros q Hv H0 Ht Hm. pose proof (cmd_vols_scalar_over q m (length (flattenF (c_wells a))) H0 Ht Hm) as E.
+    rewrite <- Hv in E. exact (reject_volume kind R C a m _ E).
+  - intros l x Hv Hin Hx. apply reject_volume_any. rewrite Hv.
+    apply (cmd_vols_list_bad l m _ x Hin). exists EReject. apply check_volume_bad. exact Hx.
+  - intros l q Hv Hin Hm. apply reject_volume_any. rewrite Hv.
+    apply (cmd_vols_list_bad l m _ _ Hin).
+    destruct (check_volume (PV (XQ q)) (Some m)) as [q'|e] eqn:E; [|exists e; reflexivity].
+    destruct (check_volume_ok _ _ _ E) as (Hq & _ & _ & Hle). injection Hq as <-.
+    exfalso. exact (Qlt_not_le _ _ Hm Hle).
+  - intros l Hv Hl. apply reject_volume_any. rewrite Hv. apply cmd_vols_list_length. exact Hl.
+  - intros Hv. apply reject_volume_any. rewrite Hv. exists EReject. reflexivity.
+  - intros e g s. apply reject_volume_exact.
+Qed.
+
+Lemma reject_worklist :
+  (forall s k a label s' e, evo_aspirate s k a label = (s', Some e) ->
+     exists cs, w_recs (st_wl s') = w_recs (st_wl s) ++ map RC cs) /\
+  (forall s k a label comps s' e, evo_dispense s k a label comps = (s', Some e) ->
+     exists cs, w_recs (st_wl s') = w_recs (st_wl s) ++ map RC cs) /\
+  (forall s k a label L L' w e,
+     nth_error (st_lw s) k = Some L ->
+     remove L (A1 (track_wells a)) (A1 (track_vols a)) label = (L', None) ->
+     comment (st_wl s) label = (w, None) ->
+     evo_command "Aspirate" (n_row_ids (lw_geom L)) (g_cols (lw_geom L)) a (w_max (st_wl s)) = Err e ->
+     evo_aspirate s k a label = ({| st_lw := upd (st_lw s) k L'; st_wl := w |}, Some e)).
+Proof.
+  split; [exact evo_aspirate_reject|]. split; [exact evo_dispense_reject|exact evo_aspirate_cmd_reject].
+Qed.
+
+Lemma tracking_statement :
+  (forall s k a label s', evo_aspirate s k a label = (s', None) ->
+     exists L L' w text,
+       nth_error (st_lw s) k = Some L /\
+       remove L (A1 (track_wells a)) (A1 (track_vols a)) label = (L', None) /\
+       comment (st_wl s) label = (w, None) /\
+       evo_command "Aspirate" (n_row_ids (lw_geom L)) (g_cols (lw_geom L)) a (w_max (st_wl s)) = Ok text /\
+       st_lw s' = upd (st_lw s) k L' /\
+       st_wl s' = emit w [RCmd text]) /\
+  (forall s k a label comps s', evo_dispense s k a label comps = (s', None) ->
+     exists L L' w text,
+       nth_error (st_lw s) k = Some L /\
+       add L (A1 (track_wells a)) (A1 (track_vols a)) label comps = (L', None) /\
+       comment (st_wl s) label = (w, None) /\
+       evo_command "Dispense" (n_row_ids (lw_geom L)) (g_cols (lw_geom L)) a (w_max (st_wl s)) = Ok text /\
+       st_lw s' = upd (st_lw s) k L' /\
+       st_wl s' = emit w [RCmd text]) /\
+  (forall (l : list labware) i j x, i <> j -> nth_error (upd l i x) j = nth_error l j) /\
+  (forall w label w' e, comment w label = (w', e) ->
+     w_max w' = w_max w /\ (exists cs, w_recs w' = w_recs w ++ map RC cs) /\ (e <> None -> w' = w)).
+Proof.
+  split; [exact evo_aspirate_accept|]. split; [exact evo_dispense_accept|].
+  split; [exact (@nth_error_upd_other labware)|exact comment_spec].
+Qed.
+
+Lemma fields_statement kind R C a m text :
+  evo_command kind R C a m = Ok text ->
+  exists c bs,
+    evo_command_struct kind R C a m = Ok c /\ text = render_cmd c /\
+    elems_bits (c_tips a) = Some bs /\ asc_nat bs = true /\
+    cm_kind c = kind /\
+    c_liquid_class a = PStr (cm_lc c) /\
+    cm_arm c = c_arm a /\
+    c_grid a = PInt (cm_grid c) /\
+    c_site a = PInt (cm_site c + 1) /\
+    cm_mask c = Z.of_N (mask_or bs) /\
+    cm_mask c = fold_right Z.add 0%Z (map tipval bs) /\
+    (0 <= cm_mask c < 256)%Z /\
+    length (cm_slots c) = 8 /\
+    (forall i, i < 8 -> ((exists h, nth_error (cm_slots c) i = Some (Some h)) <-> In i bs)) /\
+    (forall i, i < 8 -> ((exists h, nth_error (cm_slots c) i = Some (Some h)) <->
+                         Z.testbit (cm_mask c) (Z.of_nat i) = true)).
+Proof.
+  intro H. destruct (evo_command_struct_text _ _ _ _ _ _ H) as (c & Hc & ->).
+  pose proof Hc as Hc'. apply evo_command_struct_iff in Hc'.
+  destruct Hc' as (grid & site & qs & lc & bs & sl & sel & A & ->).
+  destruct (accepted_fields kind R C a m grid site qs lc bs sl sel A)
+    as (F1 & F2 & F3 & F4 & F5 & F6 & F7 & F8 & F9 & F10).
+  exists (the_cmd kind R C a grid site lc bs sl sel), bs.
+  split; [exact Hc|]. split; [reflexivity|].
+  split; [exact (acc_tips _ _ _ _ _ _ _ _ _ _ _ A)|]. split; [exact (acc_tips_asc _ _ _ _ _ _ _ _ _ _ _ A)|].
+  repeat (split; [assumption|]). split; [reflexivity|]. repeat (split; [assumption|]). assumption.
+Qed.
+
+Lemma wash_statement a text :
+  evo_wash_cmd a = Ok text <->
+  exists bs wg wsite cg csite wv wd cv cd ag ags rs fw lv,
+    elems_bits (wa_tips a) = Some bs /\
+    (wa_waste_grid a = PInt wg /\ (1 <= wg <= 67)%Z) /\
+    (wa_waste_site a = PInt wsite /\ (1 <= wsite <= 128)%Z) /\
+    (wa_cleaner_grid a = PInt cg /\ (1 <= cg <= 67)%Z) /\
+    (wa_cleaner_site a = PInt csite /\ (1 <= csite <= 128)%Z) /\
+    (wa_arm a = 0%Z \/ wa_arm a = 1%Z) /\
+    wash_vol_text (wa_waste_vol a) wv /\
+    (wa_waste_delay a = PInt wd /\ (0 <= wd <= 1000)%Z) /\
+    wash_vol_text (wa_cleaner_vol a) cv /\
+    (wa_cleaner_delay a = PInt cd /\ (0 <= cd <= 1000)%Z) /\
+    (wa_airgap a = PInt ag /\ (0 <= ag <= 100)%Z) /\
+    (wa_airgap_speed a = PInt ags /\ (1 <= ags <= 1000)%Z) /\
+    (wa_retract_speed a = PInt rs /\ (1 <= rs <= 100)%Z) /\
+    (wa_fastwash a = PInt fw /\ (0 <= fw <= 1)%Z) /\
+    (wa_low_volume a = PInt lv /\ (0 <= lv <= 1)%Z) /\
+    text = ("B;Wash(" ++ decZ (Z.of_N (mask_or bs)) ++ "," ++ decZ wg ++ "," ++ decZ (wsite - 1)
+            ++ "," ++ decZ cg ++ "," ++ decZ (csite - 1) ++ ",""" ++ wv ++ """," ++ decZ wd
+            ++ ",""" ++ cv ++ """," ++ decZ cd ++ "," ++ decZ ag ++ "," ++ decZ ags ++ ","
+            ++ decZ rs ++ "," ++ decZ fw ++ "," ++ decZ lv ++ ",1000," ++ decZ (wa_arm a) ++ ");")%string.
+Proof.
+  rewrite evo_wash_cmd_iff. split.
+  - intros (bs & wg & wsite & cg & csite & wv & wd & cv & cd & ag & ags & rs & fw & lv & W & ->).
+    destruct W as [W0 W1 W2 W3 W4 W5 W6 W7 W8 W9 W10 W11 W12 W13 W14].
+    exists bs, wg, wsite, cg, csite, wv, wd, cv, cd, ag, ags, rs, fw, lv.
+    repeat (split; [assumption|]). reflexivity.
+  - intros (bs & wg & wsite & cg & csite & wv & wd & cv & cd & ag & ags & rs & fw & lv &
+            W0 & W1 & W2 & W3 & W4 & W5 & W6 & W7 & W8 & W9 & W10 & W11 & W12 & W13 & W14 & ->).
+    exists bs, wg, wsite, cg, csite, wv, wd, cv, cd, ag, ags, rs, fw, lv.
+    split; [constructor; assumption|reflexivity].
+Qed.
+
+Lemma wash_mask_statement :
+  (forall l bs, elems_bits l = Some bs ->
+     wash_tip_values l = Some (map tipval bs) /\
+     fold_right Z.add 0%Z (dedup_Z (map tipval bs)) = Z.of_N (mask_or bs)) /\
+  (forall a, (exists x, In x (wa_tips a) /\ elem_bit x = None) -> evo_wash_cmd a = Err EReject) /\
+  (forall a e, evo_wash_cmd a = Err e -> e = EReject).
+Proof.
+  split; [|split; [exact evo_wash_cmd_bad_tip|exact evo_wash_cmd_errors]].
+  intros l bs H. split; [rewrite wash_tip_values_elems_bits, H; reflexivity|apply sum_dedup_tipvals_or].
+Qed.
+
+Lemma wash_worklist_statement s a s' :
+  (evo_wash s a = (s', None) <->
+   exists text, evo_wash_cmd a = Ok text /\ s' = set_wl s (emit (st_wl s) [RCmd text])) /\
+  (forall e, evo_wash s a = (s', Some e) <-> evo_wash_cmd a = Err e /\ s' = s).
+Proof. split; [apply evo_wash_accept|intro e; apply evo_wash_reject]. Qed.
+
+Lemma single_column_statement R C ws rcs :
+  map (make_well_index R C) ws = map Some rcs ->
+  (ws = map (fun rc => well_id (fst rc) (snd rc)) rcs /\
+   Forall (fun rc => fst rc < Nat.min 26 R /\ snd rc < C) rcs) /\
+  (selected_columns R C ws <= 1 <-> exists c, forall rc, In rc rcs -> snd rc = c) /\
+  (forall c, (forall rc, In rc rcs -> snd rc = c) ->
+     (rcs <> [] -> selected_columns R C ws = 1) /\
+     strictly_ascending_str ws = asc_nat (map fst rcs)).
+Proof.
+  intro Hm. split; [exact (wells_indexed R C ws rcs Hm)|exact (single_column R C ws rcs Hm)].
+Qed.
+
+Lemma errors_statement kind R C a m e :
+  evo_command kind R C a m = Err e ->
+  e = EReject \/
+  (e = EInvalidOp /\ exists q, (0 <= q)%Q /\ (m < q)%Q /\
+     (c_volume a = CVScalar (PV (XQ q)) \/ exists l, c_volume a = CVList l /\ In (PV (XQ q)) l)).
+Proof. exact (evo_command_errors kind R C a m e). Qed.
